@@ -4,6 +4,17 @@ Everything here is decided from the syntax tree; no code of the repository is ru
 * Functions are analysed on a work copy (`_work`): with-blocks spliced, simple nested helper functions written back at
   their calls; expressions are compared with local single definitions written out (`_Defs.resolve`), so temporaries,
   aliases and the order of independent statements do not matter.
+* Caller and callee are one unit (`_Composer`): a call of a function / method of the repository - same class through self,
+  a local built by a constructor, a function of this or an imported module, a member only the refactoring introduced on a
+  receiver of unknown class, a new property - is replaced by the callee's body with the parameters bound, when the callee is
+  not a function of the reference tree or (checkpoint rules) when it opens / lists / reads checkpoint files.  Early returns
+  become if/else arms (`_single_exit`), tests decided by literal arguments are folded, first-match search loops become
+  filtered lists.  Calls nested in expressions are given a name first.
+* Equivalent statement forms are brought to the form the rules read: append loops -> comprehensions, np.copyto /
+  read_direct / write_direct -> slice assignments, local lambdas / one-expression functions written out, small records
+  (dict / SimpleNamespace / list / named tuple / data class used field by field) -> one local per field, copies of
+  multi-definition locals coalesced, early returns / `continue`s -> else arms, common tails of if-arms merged.  Every step
+  is a rewriting of the syntax tree into an equivalent one; nothing is evaluated.
 * W1 (HDF5 agreement): recognised forms of the hyperslab, attribute, guard, look-up.
 * W2 (file names): name expressions become templates (literal text + fields with format specs, `_template`); the rules
   compare templates (family, zero padding, glob pattern), classify the selection expression (max / min / by date / listing
@@ -215,17 +226,19 @@ def _inline_nested(fn):
     return done
 
 
-def _imported_functions(chk, rel):
-    """{local name: (module path, function name)} for `from <relative module> import f [as g]` at the top of module `rel`"""
+def _imported_functions(chk, rel, fn=None):
+    """{local name: (module path, function name)} for `from <module of the repository> import f [as g]` at the top of module `rel`
+    (and inside the function `fn`, when given)"""
     out = {}
     try:
         tree = chk.mod(rel).tree
     except AnalysisError:
         return out
     parts = rel.split("/")[:-1]
-    for st in tree.body:
-        if isinstance(st, ast.ImportFrom) and st.level >= 1 and st.module and st.level - 1 <= len(parts):
-            base = parts[:len(parts) - (st.level - 1)]
+    for st in list(tree.body) + ([n for n in ast.walk(fn) if isinstance(n, ast.ImportFrom)] if fn is not None else []):
+        if isinstance(st, ast.ImportFrom) and st.module and st.level - 1 <= len(parts):
+            # relative to the package of the module, or absolute from the root of the repository
+            base = parts[:len(parts) - (st.level - 1)] if st.level >= 1 else []
             target = "/".join(base + st.module.split(".")) + ".py"
             if chk.repo.exists(target):
                 for al in st.names:
@@ -286,17 +299,903 @@ def _inline_expression_functions(chk, rel, w):
     return done
 
 
-def _work(fn, chk=None, rel=None):
+# ---- caller + callee as one unit -------------------------------------------------------------------------
+# A call of a function / method of the repository is replaced by the callee's body with the parameters bound to the arguments
+# (early returns turned into if/else arms, `if` tests decided by literal arguments folded), when the callee is a helper the
+# reference tree does not have, or - for the checkpoint rules - when it plays a role in the HDF5 protocol (opens a file, lists
+# files, reads attributes).  This is substitution on the syntax tree; nothing is evaluated on values.
+_H5_ROLE_CALLS = {"File", "glob", "iglob", "create_dataset"}
+
+
+def _has_h5_role(fn):
+    for n in ast.walk(fn):
+        if isinstance(n, ast.Call) and _fname(n) in _H5_ROLE_CALLS:
+            return True
+        if isinstance(n, ast.Attribute) and n.attr == "attrs":
+            return True
+    return False
+
+
+def _is_new_function(rel, qual):
+    """the function is not one of the reference tree: a helper introduced by a refactoring (also every function of a module the
+    reference tree does not have)"""
+    try:
+        from ..alpha import load_table
+        table = load_table().get("__functions__", {})
+    except Exception:
+        return False
+    if not table:
+        return False
+    return qual not in table.get(rel, [])
+
+
+def _always_exits(stmts):
+    if not stmts:
+        return False
+    last = stmts[-1]
+    if isinstance(last, (ast.Return, ast.Raise)):
+        return True
+    return isinstance(last, ast.If) and _always_exits(last.body) and _always_exits(last.orelse)
+
+
+def _has_return(node_or_list):
+    xs = node_or_list if isinstance(node_or_list, list) else [node_or_list]
+    return any(isinstance(x, ast.Return) for s in xs for x in ast.walk(s))
+
+
+def _single_exit(stmts, emit, cont):
+    """statements equivalent to `stmts` followed by `cont` in which every `return v` is replaced by emit(v): the code after an
+    `if` with a returning arm moves into the arm(s) that fall through.  None when a return sits inside a loop / try / with, or when
+    more than a trivial continuation would have to be duplicated"""
+    for k, st in enumerate(stmts):
+        if isinstance(st, ast.Return):
+            return stmts[:k] + emit(st.value)
+        if not _has_return(st):
+            continue
+        if not isinstance(st, ast.If):
+            return None
+        rest = _single_exit(stmts[k + 1:], emit, cont)
+        if rest is None:
+            return None
+        b_all, e_all = _always_exits(st.body), _always_exits(st.orelse)
+        if not (b_all or e_all) and len(rest) > 2:
+            return None
+        body = _single_exit(st.body, emit, [] if b_all else rest)
+        orelse = _single_exit(st.orelse, emit, [] if e_all else (rest if b_all else _clone(rest)))
+        if body is None or orelse is None:
+            return None
+        new = ast.copy_location(ast.If(test=st.test, body=body or [ast.copy_location(ast.Pass(), st)], orelse=orelse), st)
+        return stmts[:k] + [new]
+    return stmts + ([] if _always_exits(stmts) else cont)
+
+
+def _literal_test(t):
+    """truth value of a test made of literals only (after literal arguments have been bound), else None"""
+    if isinstance(t, ast.Constant):
+        return bool(t.value)
+    if isinstance(t, ast.UnaryOp) and isinstance(t.op, ast.Not):
+        d = _literal_test(t.operand)
+        return None if d is None else not d
+    if isinstance(t, ast.Compare) and len(t.ops) == 1 and isinstance(t.left, ast.Constant) and isinstance(t.comparators[0], ast.Constant):
+        a, b, op = t.left.value, t.comparators[0].value, t.ops[0]
+        if isinstance(op, (ast.Is, ast.IsNot)) and (a is None or b is None):
+            return (a is b) == isinstance(op, ast.Is)
+        if isinstance(op, (ast.Eq, ast.NotEq)) and type(a) is type(b):
+            return (a == b) == isinstance(op, ast.Eq)
+    return None
+
+
+def _fold_literal_tests(stmts):
+    out = []
+    for st in stmts:
+        if isinstance(st, ast.If):
+            d = _literal_test(st.test)
+            if d is not None:
+                out.extend(_fold_literal_tests(st.body if d else st.orelse))
+                continue
+            st.body = _fold_literal_tests(st.body) or [ast.copy_location(ast.Pass(), st)]
+            st.orelse = _fold_literal_tests(st.orelse)
+        elif isinstance(st, (ast.For, ast.While, ast.With, ast.Try)):
+            for f in ("body", "orelse", "finalbody"):
+                b = getattr(st, f, None)
+                if isinstance(b, list) and b:
+                    setattr(st, f, _fold_literal_tests(b) or ([ast.copy_location(ast.Pass(), st)] if f == "body" else []))
+        out.append(st)
+    return out
+
+
+class _Composer:
+    def __init__(self, chk, rel, w, policy):
+        self.chk, self.rel, self.w, self.policy = chk, rel, w, policy
+        self.imported = _imported_functions(chk, rel, w)
+        q = getattr(w, "_qual", w.name)
+        self.cls_name = q.split(".")[0] if "." in q else None
+        self.origin = q
+        self.static = any(isinstance(d, ast.Name) and d.id in ("staticmethod", "classmethod") for d in w.decorator_list)
+        self.counter = 0
+        self.done = []
+
+    # -- where a name of the calling module leads
+    def _lookup(self, name):
+        """-> (module path, node) of a top-level function / class called `name` in the calling module"""
+        try:
+            m = self.chk.repo.mod(self.rel)
+            if m.has(name):
+                return self.rel, m.get(name)
+            if name in self.imported:
+                target, real = self.imported[name]
+                m2 = self.chk.repo.mod(target)
+                if m2.has(real):
+                    return target, m2.get(real)
+        except AnalysisError:
+            pass
+        return None, None
+
+    @staticmethod
+    def _method(cls, name):
+        ms = [m for m in cls.body if isinstance(m, ast.FunctionDef) and m.name == name]
+        return ms[0] if len(ms) == 1 else None
+
+    def _candidate_modules(self):
+        mods = [self.rel] + [t for t, _ in self.imported.values()] + [U.GRID, U.LAYOUT]
+        out = []
+        for m in mods:
+            if m not in out and self.chk.repo.exists(m):
+                out.append(m)
+        return out
+
+    def new_member(self, name, want_property):
+        """the one method / property called `name` that some class of the modules in reach defines and the reference tree does not
+        have -> (function, module, qualified name) | None.  Used when the class of the receiver is not known from the text: a
+        member introduced by the refactoring has one meaning only"""
+        found = []
+        for m in self._candidate_modules():
+            try:
+                tree = self.chk.repo.mod(m).tree
+            except AnalysisError:
+                continue
+            for c in tree.body:
+                if not isinstance(c, ast.ClassDef):
+                    continue
+                for h in c.body:
+                    if isinstance(h, ast.FunctionDef) and h.name == name:
+                        decs = [src(d) for d in h.decorator_list]
+                        if (decs == ["property"]) == want_property and (want_property or not decs):
+                            found.append((h, m, f"{c.name}.{h.name}"))
+                        else:
+                            return None
+        if len(found) != 1 or not _is_new_function(found[0][1], found[0][2]):
+            return None
+        return found[0]
+
+    def resolve(self, call, D):
+        """-> (callee, expression bound to its first parameter or None, module, qualified name) | None"""
+        f = call.func
+        if isinstance(f, ast.Name):
+            if f.id in D.params or any(not isinstance(st_, ast.ImportFrom) for _, st_ in D.defs.get(f.id, [])):
+                return None             # a local of the caller (other than a name imported inside the function)
+            rel, node = self._lookup(f.id)
+            if isinstance(node, ast.FunctionDef):
+                return node, None, rel, node.name
+            return None
+        if not isinstance(f, ast.Attribute):
+            return None
+        if not isinstance(f.value, ast.Name) or (f.value.id in D.params and not (self.cls_name and self.w.args.args and f.value.id == self.w.args.args[0].arg)):
+            # receiver of unknown class (an attribute chain, a parameter): a member that only the refactoring introduced
+            e_ = f.value
+            while isinstance(e_, ast.Attribute):
+                e_ = e_.value
+            got = self.new_member(f.attr, False) if isinstance(e_, ast.Name) else None
+            if got is None or not got[0].args.args:
+                return None
+            return got[0], f.value, got[1], got[2]
+        obj = f.value.id
+        rel = cls = None
+        bound = True
+        if self.cls_name and not self.static and self.w.args.args and obj == self.w.args.args[0].arg:
+            rel, cls = self._lookup(self.cls_name)
+        elif obj in D.defs:
+            ds = [v for v, _ in D.defs[obj]]
+            if ds and all(isinstance(v, ast.Call) and isinstance(v.func, ast.Name) and v.func.id == ds[0].func.id for v in ds) and obj not in D.params:
+                rel, cls = self._lookup(ds[0].func.id)
+        elif obj not in D.params:
+            rel, cls = self._lookup(obj)
+            bound = False
+        if not isinstance(cls, ast.ClassDef):
+            # a local whose class the text does not tell: a member that only the refactoring introduced
+            got = self.new_member(f.attr, False) if (obj in D.defs and bound) else None
+            if got is None or not got[0].args.args:
+                return None
+            return got[0], f.value, got[1], got[2]
+        h = self._method(cls, f.attr)
+        if h is None:
+            return None
+        decs = [src(d) for d in h.decorator_list]
+        if decs == ["staticmethod"]:
+            return h, None, rel, f"{cls.name}.{h.name}"
+        if decs or not bound or not h.args.args:
+            return None
+        return h, f.value, rel, f"{cls.name}.{h.name}"
+
+    def eligible(self, h, rel, qual):
+        if qual == self.origin and rel == self.rel:
+            return False
+        a = h.args
+        if a.vararg or a.kwarg or a.kwonlyargs or a.posonlyargs:
+            return False
+        for n in ast.walk(h):
+            if n is not h and isinstance(n, (ast.FunctionDef, ast.AsyncFunctionDef, ast.ClassDef, ast.Yield, ast.YieldFrom, ast.Global,
+                                             ast.Nonlocal, ast.Try, ast.Await)):
+                return False
+        if h.name.startswith("__") and h.name.endswith("__"):
+            return False
+        if _is_new_function(rel, qual):
+            return True
+        return self.policy == "h5" and _has_h5_role(h)
+
+    def expand(self, call, h, self_expr, kind, target):
+        params = [a.arg for a in h.args.args]
+        rest = params[1:] if self_expr is not None else params
+        if len(call.args) > len(rest) or any(isinstance(a, ast.Starred) for a in call.args) or any(k.arg is None for k in call.keywords):
+            return None
+        actual = dict(zip(rest, call.args))
+        for k in call.keywords:
+            if k.arg not in rest or k.arg in actual:
+                return None
+            actual[k.arg] = k.value
+        defaults = dict(zip(params[len(params) - len(h.args.defaults):], h.args.defaults))
+        for p in rest:
+            if p not in actual:
+                if p not in defaults:
+                    return None
+                actual[p] = defaults[p]
+        if self_expr is not None:
+            actual[params[0]] = self_expr
+        hw = _clone(h)
+        _splice_with(hw)
+        body = [s for s in hw.body if not (isinstance(s, ast.Expr) and isinstance(s.value, ast.Constant))]
+        if not body:
+            return None
+        self.counter += 1
+        tag = f"__c{self.counter}"
+        stored = {n.id for s in body for n in ast.walk(s) if isinstance(n, ast.Name) and isinstance(n.ctx, ast.Store)}
+        caller = {n.id for n in _own_walk(self.w) if isinstance(n, ast.Name)} | set(_params(self.w))
+        caller_stored = {n.id for n in _own_walk(self.w) if isinstance(n, ast.Name) and isinstance(n.ctx, ast.Store)} | set(_params(self.w))
+        free = {n.id for s in body for n in ast.walk(s) if isinstance(n, ast.Name)} - stored - set(params)
+        if free & caller_stored:
+            return None                 # a global of the callee's module would be captured by a local of the caller
+        mapping, pre = {}, []
+        def chain(e_):              # x.a.b: reading it again gives the same object (no call, no subscript)
+            while isinstance(e_, ast.Attribute):
+                e_ = e_.value
+            return isinstance(e_, ast.Name)
+        for p in params:
+            a = actual[p]
+            if p not in stored and (isinstance(a, (ast.Name, ast.Constant)) or chain(a)):
+                mapping[p] = a
+            else:
+                nm = p + tag
+                mapping[p] = nm
+                pre.append(ast.Assign(targets=[ast.Name(id=nm, ctx=ast.Store())], value=_clone(a)))
+        for loc in stored - set(params):
+            if loc in caller:
+                mapping[loc] = loc + tag
+        arg_names = {x.id for a in actual.values() for x in ast.walk(a) if isinstance(x, ast.Name)}
+        if arg_names & {loc for loc in stored - set(params) if loc not in mapping}:
+            return None                 # a local of the callee would capture a name used in an argument
+        body = [_Sub(mapping).visit(s) for s in body]
+        body = _fold_literal_tests(body)
+        body = _first_match_loops(body, tag)
+
+        def emit(v):
+            if kind == "assign":
+                return [ast.Assign(targets=[_clone(target)], value=v if v is not None else ast.Constant(value=None))]
+            if kind == "return":
+                return [ast.Return(value=v)]
+            return [ast.Expr(value=v)] if v is not None and any(isinstance(x, ast.Call) for x in ast.walk(v)) else []
+        out = _single_exit(body, emit, emit(None))
+        if out is None:
+            return None
+        return pre + out
+
+    def _hoist(self, D):
+        """a call of an expandable callee nested inside the expression of a simple statement is given a name of its own in front of
+        the statement (not from inside a lambda / comprehension / conditional expression / right operand of and-or)"""
+        for owner, f, blk in _blocks_of(self.w):
+            for k, st in enumerate(blk):
+                if not isinstance(st, (ast.Assign, ast.AugAssign, ast.AnnAssign, ast.Expr, ast.Return, ast.Assert)):
+                    continue
+                top = st.value if not isinstance(st, ast.Assert) else st.test
+                if top is None:
+                    continue
+                tops = [(top, True)]
+                if isinstance(st, ast.Assign):          # subscripts of the targets: dset[<selection>] = ...
+                    tops += [(t.slice, False) for t in st.targets if isinstance(t, ast.Subscript)]
+
+                def walk(e, is_top):
+                    if isinstance(e, (ast.Lambda, ast.ListComp, ast.SetComp, ast.DictComp, ast.GeneratorExp, ast.IfExp)):
+                        return None
+                    if isinstance(e, ast.BoolOp):
+                        return walk(e.values[0], False)
+                    if isinstance(e, ast.Call) and not (is_top and not isinstance(st, (ast.AugAssign, ast.Assert))):
+                        r = self.resolve(e, D)
+                        if r is not None and self.eligible(r[0], r[2], r[3]):
+                            return e
+                    for ch in ast.iter_child_nodes(e):
+                        if isinstance(ch, ast.expr):
+                            got = walk(ch, False)
+                            if got is not None:
+                                return got
+                    return None
+                got = None
+                for top_, is_top_ in tops:
+                    got = walk(top_, is_top_)
+                    if got is not None:
+                        break
+                if got is None:
+                    continue
+                self.counter += 1
+                nm = f"call__c{self.counter}"
+                new = ast.copy_location(ast.Assign(targets=[ast.Name(id=nm, ctx=ast.Store())], value=_clone(got)), st)
+
+                class R(ast.NodeTransformer):
+                    def visit(self_, node):
+                        if node is got:
+                            return ast.copy_location(ast.Name(id=nm, ctx=ast.Load()), node)
+                        return self_.generic_visit(node)
+                blk[k] = R().visit(st)
+                blk.insert(k, new)
+                return True
+        return False
+
+    def inline_new_properties(self):
+        """`X.p` where p is a property only the refactoring introduced, with a one-expression getter -> that expression with
+        self bound to X (X a plain attribute chain)"""
+        comp = self
+        done = []
+
+        class T(ast.NodeTransformer):
+            def visit_Attribute(self, node):
+                self.generic_visit(node)
+                if not isinstance(node.ctx, ast.Load):
+                    return node
+                e_ = node.value
+                while isinstance(e_, ast.Attribute):
+                    e_ = e_.value
+                if not isinstance(e_, ast.Name):
+                    return node
+                got = comp.new_member(node.attr, True)
+                if got is None:
+                    return node
+                h = got[0]
+                body = [b for b in h.body if not (isinstance(b, ast.Expr) and isinstance(b.value, ast.Constant))]
+                if len(body) != 1 or not isinstance(body[0], ast.Return) or body[0].value is None or len(h.args.args) != 1:
+                    return node
+                bound = {x.id for x in ast.walk(body[0].value) if isinstance(x, ast.Name) and isinstance(x.ctx, ast.Store)}
+                if bound & {x.id for x in ast.walk(node.value) if isinstance(x, ast.Name)}:
+                    return node
+                new = _Sub({h.args.args[0].arg: node.value}).visit(_clone(body[0].value))
+                for x in ast.walk(new):
+                    ast.copy_location(x, node)
+                done.append(got[2])
+                try:
+                    comp.chk.mod(got[1])
+                except AnalysisError:
+                    pass
+                return new
+        for k, st in enumerate(self.w.body):
+            self.w.body[k] = T().visit(st)
+        return done
+
+    def run(self):
+        self.done += self.inline_new_properties()
+        for _ in range(40):
+            _link(self.w)
+            D = _Defs(self.w)
+            hit = None
+            for owner, f, blk in _blocks_of(self.w):
+                for k, st in enumerate(blk):
+                    call = kind = target = None
+                    if isinstance(st, ast.Expr) and isinstance(st.value, ast.Call):
+                        call, kind = st.value, "expr"
+                    elif isinstance(st, ast.Assign) and len(st.targets) == 1 and isinstance(st.value, ast.Call):
+                        call, kind, target = st.value, "assign", st.targets[0]
+                    elif isinstance(st, ast.Return) and isinstance(st.value, ast.Call):
+                        call, kind = st.value, "return"
+                    if call is None or id(call) in self._failed:
+                        continue
+                    r = self.resolve(call, D)
+                    if r is None or not self.eligible(r[0], r[2], r[3]):
+                        continue
+                    new = self.expand(call, r[0], r[1], kind, target)
+                    if new is None:
+                        self._failed.add(id(call))
+                        continue
+                    hit = (blk, k, st, new, r)
+                    break
+                if hit:
+                    break
+            if hit:
+                blk, k, st, new, r = hit
+                for s in new:
+                    for x in ast.walk(s):
+                        if isinstance(x, (ast.stmt, ast.expr)):
+                            ast.copy_location(x, st)
+                blk[k:k + 1] = new or [ast.copy_location(ast.Pass(), st)]
+                self.done.append(r[3])
+                try:
+                    self.chk.mod(r[2])
+                except AnalysisError:
+                    pass
+                continue
+            if not self._hoist(D):
+                break
+        return self.done
+
+    _failed: set = set()
+
+
+def _compose_calls(chk, rel, w, policy):
+    c = _Composer(chk, rel, w, policy)
+    c._failed = set()
+    try:
+        return c.run()
+    except RecursionError:
+        return c.done
+
+
+# ---- equivalent statement forms brought to the form the rules read ---------------------------------------
+def _append_loops_to_comprehensions(w):
+    """`x = []` ... `for T in IT: x.append(E)` (optionally under one `if C`)  ->  `x = [E for T in IT if C]`, when `x` is not
+    mentioned between the two statements and has no other definition: the element-by-element construction of a list"""
+    changed = True
+    while changed:
+        changed = False
+        for owner, f, blk in list(_blocks_of(w)):
+            for k, st in enumerate(blk):
+                if not (isinstance(st, ast.For) and not st.orelse and len(st.body) == 1):
+                    continue
+                inner, cond = st.body[0], None
+                if isinstance(inner, ast.If) and not inner.orelse and len(inner.body) == 1:
+                    inner, cond = inner.body[0], inner.test
+                if not (isinstance(inner, ast.Expr) and isinstance(inner.value, ast.Call) and isinstance(inner.value.func, ast.Attribute)
+                        and inner.value.func.attr == "append" and isinstance(inner.value.func.value, ast.Name) and len(inner.value.args) == 1
+                        and not inner.value.keywords):
+                    continue
+                x = inner.value.func.value.id
+                mentions = lambda node: any(isinstance(n, ast.Name) and n.id == x for n in ast.walk(node))
+                if mentions(st.iter) or mentions(inner.value.args[0]) or (cond is not None and mentions(cond)):
+                    continue
+                init = [j for j in range(k) if isinstance(blk[j], ast.Assign) and len(blk[j].targets) == 1 and isinstance(blk[j].targets[0], ast.Name)
+                        and blk[j].targets[0].id == x]
+                if len(init) != 1 or not (isinstance(blk[init[0]].value, ast.List) and not blk[init[0]].value.elts):
+                    continue
+                if any(mentions(blk[j]) for j in range(init[0] + 1, k)):
+                    continue
+                stores = [n for n in _own_walk(w) if isinstance(n, ast.Name) and n.id == x and isinstance(n.ctx, ast.Store)]
+                if len(stores) != 1:
+                    continue
+                comp = ast.ListComp(elt=inner.value.args[0], generators=[ast.comprehension(target=st.target, iter=st.iter,
+                                                                                           ifs=[cond] if cond is not None else [], is_async=0)])
+                blk[init[0]].value = ast.copy_location(comp, st)
+                del blk[k]
+                changed = True
+                break
+            if changed:
+                break
+
+
+def _direct_io_to_assignments(w):
+    """np.copyto(X, Y) -> X[:] = Y;  D.read_direct(X, source_sel=S) -> X[:] = D[S];  D.write_direct(X, dest_sel=S) -> D[S] = X[:]
+    (h5py: read_direct(dest, source_sel, dest_sel) / write_direct(source, source_sel, dest_sel); only the forms in which the
+    array side is taken whole)"""
+    full = lambda: ast.Slice(lower=None, upper=None, step=None)
+    for owner, f, blk in list(_blocks_of(w)):
+        for k, st in enumerate(blk):
+            if not (isinstance(st, ast.Expr) and isinstance(st.value, ast.Call) and isinstance(st.value.func, ast.Attribute)):
+                continue
+            c = st.value
+            new = None
+            if c.func.attr == "copyto" and len(c.args) == 2 and not c.keywords and src(c.func.value) in ("np", "numpy"):
+                new = ast.Assign(targets=[ast.Subscript(value=c.args[0], slice=full(), ctx=ast.Store())], value=c.args[1])
+            elif c.func.attr in ("read_direct", "write_direct") and c.args and not any(isinstance(a, ast.Starred) for a in c.args):
+                arr = c.args[0]
+                src_sel = _arg(c, 1, "source_sel")
+                dst_sel = _arg(c, 2, "dest_sel")
+                if any(k_.arg not in ("source_sel", "dest_sel") for k_ in c.keywords) or len(c.args) > 3:
+                    continue
+                if c.func.attr == "read_direct" and src_sel is not None and (dst_sel is None or _is_const_none(dst_sel)):
+                    new = ast.Assign(targets=[ast.Subscript(value=arr, slice=full(), ctx=ast.Store())],
+                                     value=ast.Subscript(value=c.func.value, slice=src_sel, ctx=ast.Load()))
+                elif c.func.attr == "write_direct" and dst_sel is not None and (src_sel is None or _is_const_none(src_sel)):
+                    new = ast.Assign(targets=[ast.Subscript(value=c.func.value, slice=dst_sel, ctx=ast.Store())],
+                                     value=ast.Subscript(value=arr, slice=full(), ctx=ast.Load()))
+            if new is not None:
+                blk[k] = ast.copy_location(new, st)
+    ast.fix_missing_locations(w)
+
+
+def _inline_local_expression_functions(w):
+    """calls of a one-expression function of the function itself (`h = lambda a: E` / `def h(a): return E`, defined once and only
+    called) are replaced by E with the parameters bound, wherever they occur in an expression"""
+    cands = {}
+    _link(w)
+    for n in _own_walk(w):
+        if isinstance(n, ast.Assign) and len(n.targets) == 1 and isinstance(n.targets[0], ast.Name) and isinstance(n.value, ast.Lambda):
+            cands.setdefault(n.targets[0].id, []).append((n.value.args, n.value.body, n))
+        elif isinstance(n, ast.FunctionDef) and n is not w and not n.decorator_list:
+            body = [b for b in n.body if not (isinstance(b, ast.Expr) and isinstance(b.value, ast.Constant))]
+            if len(body) == 1 and isinstance(body[0], ast.Return) and body[0].value is not None:
+                cands.setdefault(n.name, []).append((n.args, body[0].value, n))
+            else:
+                cands.setdefault(n.name, []).append(None)
+    stores = {}
+    for n in _own_walk(w):
+        if isinstance(n, ast.Name) and isinstance(n.ctx, ast.Store):
+            stores[n.id] = stores.get(n.id, 0) + 1
+    helpers = {}
+    assigned = {n.id for n in _own_walk(w) if isinstance(n, ast.Name) and isinstance(n.ctx, ast.Store)} | set(_params(w))
+    for nm, lst in cands.items():
+        if len(lst) != 1 or lst[0] is None or stores.get(nm, 0) > (1 if isinstance(lst[0][2], ast.Assign) else 0):
+            continue
+        a, body, node = lst[0]
+        if a.vararg or a.kwarg or a.kwonlyargs or a.posonlyargs or any(isinstance(x, (ast.Lambda, ast.Yield, ast.Await, ast.NamedExpr)) for x in ast.walk(body)):
+            continue
+        ps = [x.arg for x in a.args]
+        free = {x.id for x in ast.walk(body) if isinstance(x, ast.Name)} - set(ps)
+        # the free names of the expression must mean the same at the call as at the definition: names assigned once (or never)
+        if any(stores.get(x, 0) > 1 for x in free if x in assigned) or any(isinstance(x, ast.Name) and isinstance(x.ctx, ast.Store) for x in ast.walk(body)):
+            continue
+        # only called, never passed around
+        uses = [n for n in _own_walk(w) if isinstance(n, ast.Name) and n.id == nm and isinstance(n.ctx, ast.Load)]
+        if not uses or not all(isinstance(parent(u), ast.Call) and parent(u).func is u for u in uses):
+            continue
+        helpers[nm] = (ps, a.defaults, body)
+    if not helpers:
+        return []
+    done = []
+
+    class T(ast.NodeTransformer):
+        def visit_Call(self, node):
+            self.generic_visit(node)
+            if not (isinstance(node.func, ast.Name) and node.func.id in helpers):
+                return node
+            ps, defaults, body = helpers[node.func.id]
+            if len(node.args) > len(ps) or any(isinstance(x, ast.Starred) for x in node.args) or any(k.arg is None for k in node.keywords):
+                return node
+            actual = dict(zip(ps, node.args))
+            for k in node.keywords:
+                if k.arg not in ps or k.arg in actual:
+                    return node
+                actual[k.arg] = k.value
+            dflt = dict(zip(ps[len(ps) - len(defaults):], defaults))
+            for p in ps:
+                if p not in actual:
+                    if p not in dflt:
+                        return node
+                    actual[p] = dflt[p]
+            new = _Sub(actual).visit(_clone(body))
+            for x in ast.walk(new):
+                ast.copy_location(x, node)
+            done.append(node.func.id)
+            return new
+    for k, st in enumerate(w.body):
+        if not isinstance(st, (ast.FunctionDef, ast.AsyncFunctionDef, ast.ClassDef)):
+            w.body[k] = T().visit(st)
+    return done
+
+
+def _record_types(chk, rel, fn):
+    """{name usable in `fn`: [field names]} for the small record types of the repository in reach: `X = namedtuple('X', 'a b')`,
+    `class X(NamedTuple)` / `@dataclass class X` with annotated fields only"""
+    out = {}
+
+    def of_module(m):
+        found = {}
+        try:
+            tree = chk.repo.mod(m).tree
+        except AnalysisError:
+            return found
+        for st in tree.body:
+            if isinstance(st, ast.Assign) and len(st.targets) == 1 and isinstance(st.targets[0], ast.Name) and isinstance(st.value, ast.Call) \
+                    and _fname(st.value) == "namedtuple" and len(st.value.args) >= 2:
+                a = st.value.args[1]
+                if _is_const(a, typ=str):
+                    found[st.targets[0].id] = a.value.replace(",", " ").split()
+                elif isinstance(a, (ast.List, ast.Tuple)) and all(_is_const(e, typ=str) for e in a.elts):
+                    found[st.targets[0].id] = [e.value for e in a.elts]
+            elif isinstance(st, ast.ClassDef):
+                is_nt = any(src(b).split(".")[-1] == "NamedTuple" for b in st.bases)
+                is_dc = any(src(d).split("(")[0].split(".")[-1] == "dataclass" for d in st.decorator_list)
+                body = [b for b in st.body if not (isinstance(b, ast.Expr) and isinstance(b.value, ast.Constant))]
+                if (is_nt or is_dc) and body and all(isinstance(b, ast.AnnAssign) and isinstance(b.target, ast.Name) and b.value is None for b in body):
+                    found[st.name] = [b.target.id for b in body]
+        return found
+    own = of_module(rel)
+    out.update(own)
+    cache = {}
+    for local, (target, real) in _imported_functions(chk, rel, fn).items():
+        if target not in cache:
+            cache[target] = of_module(target)
+        if real in cache[target]:
+            out[local] = cache[target][real]
+    # the record types of the modules functions are imported from: a function written back at its call brings them along
+    for target, found in cache.items():
+        for name, fields in found.items():
+            out.setdefault(name, fields)
+    return out
+
+
+def _scalar_replace(w, records=None):
+    """a local record that is only ever used field by field - `S = {'a': x, 'b': y}` / `dict(a=x, b=y)` / `SimpleNamespace(a=x, b=y)` /
+    `[x, y]` / `(x, y)` / a named tuple or data class of the repository `Rec(x, y)`, with every other occurrence of the form
+    `S['a']` / `S.a` / `S[0]` - is replaced by one local per field (`S__a`): the rules then see plain counters and names
+    whatever small structure carries them.  The record may be built at several places (the arms of an `if`), all with the
+    same fields"""
+    records = records or {}
+    done = []
+
+    def fields_of(v):
+        """-> ([(field key, value)], {access mode: key -> field}) or None"""
+        if isinstance(v, ast.Dict) and v.keys and all(_is_const(k, typ=str) for k in v.keys):
+            return [(k.value, e) for k, e in zip(v.keys, v.values)], "item"
+        if isinstance(v, ast.Call) and not v.args and v.keywords and all(k.arg for k in v.keywords) and (
+                (isinstance(v.func, ast.Name) and v.func.id == "dict") or _fname(v) == "SimpleNamespace"):
+            return [(k.arg, k.value) for k in v.keywords], "item" if _fname(v) == "dict" else "attr"
+        if isinstance(v, (ast.List, ast.Tuple)) and v.elts and not any(isinstance(e, ast.Starred) for e in v.elts):
+            return [(k, e) for k, e in enumerate(v.elts)], "index"
+        if isinstance(v, ast.Call) and isinstance(v.func, ast.Name) and v.func.id in records and not any(isinstance(a, ast.Starred) for a in v.args) \
+                and all(k.arg for k in v.keywords):
+            names = records[v.func.id]
+            got = dict(zip(names, v.args))
+            for k in v.keywords:
+                if k.arg not in names or k.arg in got:
+                    return None
+                got[k.arg] = k.value
+            if len(v.args) > len(names) or set(got) != set(names):
+                return None
+            return [(n, got[n]) for n in names], "record"
+        return None
+    for _ in range(6):
+        _link(w)
+        defs, uses = {}, {}
+        for n in _own_walk(w):
+            if isinstance(n, ast.Name):
+                if isinstance(n.ctx, ast.Store):
+                    defs.setdefault(n.id, []).append(n)
+                else:
+                    uses.setdefault(n.id, []).append(n)
+        hit = None
+        for nm, ds in defs.items():
+            if nm in _params(w):
+                continue
+            sts = [parent(d) for d in ds]
+            if not all(isinstance(st, ast.Assign) and len(st.targets) == 1 and st.targets[0] is d for st, d in zip(sts, ds)):
+                continue
+            built = [fields_of(st.value) for st in sts]
+            if any(b is None for b in built) or len({(b[1], tuple(f for f, _ in b[0])) for b in built}) != 1:
+                continue
+            mode = built[0][1]
+            keys = [f for f, _ in built[0][0]]
+            if len(set(keys)) != len(keys):
+                continue
+            if mode == "index" and len(ds) == 1 and isinstance(sts[0].value, ast.Tuple) and False:
+                continue
+
+            def field_of(u):
+                p_ = parent(u)
+                if mode in ("attr", "record") and isinstance(p_, ast.Attribute) and p_.value is u and p_.attr in keys:
+                    return p_, p_.attr
+                if mode == "item" and isinstance(p_, ast.Subscript) and p_.value is u and _is_const(p_.slice, typ=str) and p_.slice.value in keys:
+                    return p_, p_.slice.value
+                if mode in ("index", "record") and isinstance(p_, ast.Subscript) and p_.value is u and not isinstance(p_.slice, ast.Slice) \
+                        and _const_index(p_.slice) is not None and -len(keys) <= _const_index(p_.slice) < len(keys):
+                    return p_, keys[_const_index(p_.slice)]
+                return None
+            us = uses.get(nm, [])
+            if not us or any(field_of(u) is None for u in us) or any(isinstance(field_of(u)[0].ctx, ast.Del) for u in us):
+                continue
+            if mode == "record" and any(isinstance(field_of(u)[0].ctx, ast.Store) for u in us):
+                continue                    # tuples are immutable; a data class written field by field is left alone
+            # a field value must not read the record itself
+            if any(isinstance(x, ast.Name) and x.id == nm for b in built for _, e in b[0] for x in ast.walk(e)):
+                continue
+            hit = (nm, sts, built, [field_of(u) for u in us])
+            break
+        if hit is None:
+            break
+        nm, sts, built, accesses = hit
+        local = lambda f: f"{nm}__{f}"
+        repl = {id(node): local(f) for node, f in accesses}
+
+        class T(ast.NodeTransformer):
+            def visit(self, node):
+                if id(node) in repl:
+                    return ast.copy_location(ast.Name(id=repl[id(node)], ctx=node.ctx), node)
+                return self.generic_visit(node)
+        T().visit(w)
+        for st, b in zip(sts, built):
+            # no field value reads the record (checked above): the fields can be assigned one after the other
+            new = [ast.copy_location(ast.Assign(targets=[ast.Name(id=local(f), ctx=ast.Store())], value=e), st) for f, e in b[0]]
+            for owner, f_, blk in _blocks_of(w):
+                if any(x is st for x in blk):
+                    k = next(i for i, x in enumerate(blk) if x is st)
+                    blk[k:k + 1] = new
+                    break
+        ast.fix_missing_locations(w)
+        done.append(nm)
+    return done
+
+
+def _coalesce_copies(w):
+    """`x = y` (the only definition of x, at the top level of the function; y a local that is not assigned again afterwards and
+    not a parameter that x outlives in a different role): every use of x is a use of y - x is renamed to y and the copy dropped.
+    Only for copies of locals that have several definitions (the arms of an `if`), which expressions cannot be written out for"""
+    done = []
+    for _ in range(10):
+        defs = {}
+        for n in _own_walk(w):
+            if isinstance(n, ast.Name) and isinstance(n.ctx, ast.Store):
+                defs.setdefault(n.id, []).append(n)
+        hit = None
+        for k, st in enumerate(w.body):
+            if not (isinstance(st, ast.Assign) and len(st.targets) == 1 and isinstance(st.targets[0], ast.Name) and isinstance(st.value, ast.Name)):
+                continue
+            x, y = st.targets[0].id, st.value.id
+            if x == y or len(defs.get(x, [])) != 1 or len(defs.get(y, [])) < 2 or x in _params(w) or y in _params(w):
+                continue
+            if any(_pos(d) >= _pos(st) for d in defs[y]):
+                continue                    # y changes after the copy: x keeps the old value
+            if any(isinstance(n, ast.Name) and n.id == x and _pos(n) < _pos(st) for n in _own_walk(w)):
+                continue
+            if any(isinstance(n, (ast.Global, ast.Nonlocal)) for n in _own_walk(w)):
+                continue
+            hit = (k, x, y)
+            break
+        if hit is None:
+            break
+        k, x, y = hit
+        del w.body[k]
+        for n in ast.walk(w):
+            if isinstance(n, ast.Name) and n.id == x:
+                n.id = y
+        done.append(x)
+    return done
+
+
+def _first_match_loops(stmts, tag):
+    """`for T in IT: if C: return E` (nothing else in the loop) -> `found = [E for T in IT if C]; if found: return found[0]`:
+    the search loop that returns its first match, in a form without a return inside a loop"""
+    out = []
+    for st in stmts:
+        if isinstance(st, ast.For) and not st.orelse and len(st.body) == 1 and isinstance(st.body[0], ast.If) and not st.body[0].orelse \
+                and len(st.body[0].body) == 1 and isinstance(st.body[0].body[0], ast.Return) and st.body[0].body[0].value is not None \
+                and not any(isinstance(x, (ast.NamedExpr, ast.Yield, ast.Await)) for x in ast.walk(st)):
+            nm = f"found{tag}_{len(out)}"
+            comp = ast.ListComp(elt=st.body[0].body[0].value, generators=[ast.comprehension(target=st.target, iter=st.iter, ifs=[st.body[0].test],
+                                                                                             is_async=0)])
+            out.append(ast.copy_location(ast.Assign(targets=[ast.Name(id=nm, ctx=ast.Store())], value=comp), st))
+            out.append(ast.copy_location(ast.If(test=ast.Name(id=nm, ctx=ast.Load()), body=[ast.Return(value=ast.Subscript(
+                value=ast.Name(id=nm, ctx=ast.Load()), slice=ast.Constant(value=0), ctx=ast.Load()))], orelse=[]), st))
+            continue
+        if isinstance(st, ast.If):
+            st.body = _first_match_loops(st.body, tag + "a") or st.body
+            st.orelse = _first_match_loops(st.orelse, tag + "b")
+        out.append(st)
+    return out
+
+
+def _continue_to_else(w):
+    """in a loop body, `if C: A; continue` followed by R  ->  `if C: A else: R` (the early end of the iteration written as the
+    other arm), repeated; only at the top level of the loop body"""
+    changed = False
+    for lp in [n for n in ast.walk(w) if isinstance(n, (ast.For, ast.While))]:
+        for _ in range(10):
+            hit = None
+            for k, st in enumerate(lp.body):
+                if isinstance(st, ast.If) and st.body and isinstance(st.body[-1], ast.Continue) and k + 1 < len(lp.body) \
+                        and not any(isinstance(x, (ast.FunctionDef, ast.ClassDef)) for x in lp.body[k + 1:]):
+                    hit = k
+                    break
+            if hit is None:
+                break
+            st = lp.body[hit]
+            rest = lp.body[hit + 1:]
+            st.body = st.body[:-1] or [ast.copy_location(ast.Pass(), st)]
+            if st.orelse and isinstance(st.orelse[-1], ast.Continue):
+                break
+            st.orelse = list(st.orelse) + rest
+            lp.body = lp.body[:hit + 1]
+            changed = True
+    return changed
+
+
+def _merge_common_tails(w):
+    """`if C: A; T else: B; T`  ->  `if C: A else: B` followed by T, for the longest common tail T of plain statements"""
+    changed = True
+    any_change = False
+    while changed:
+        changed = False
+        for owner, f, blk in list(_blocks_of(w)):
+            for k, st in enumerate(blk):
+                if not (isinstance(st, ast.If) and st.body and st.orelse):
+                    continue
+                tail = []
+                while st.body and st.orelse and not isinstance(st.body[-1], (ast.Continue, ast.Break, ast.Return, ast.Raise, ast.Pass)) \
+                        and ast.dump(st.body[-1]) == ast.dump(st.orelse[-1]):
+                    tail.insert(0, st.body.pop())
+                    st.orelse.pop()
+                if not tail:
+                    continue
+                if not st.body:
+                    if st.orelse:
+                        st.test = ast.copy_location(ast.UnaryOp(op=ast.Not(), operand=st.test), st.test)
+                        st.body, st.orelse = st.orelse, []
+                    else:
+                        st.body = [ast.copy_location(ast.Pass(), st)]
+                blk[k + 1:k + 1] = tail
+                changed = any_change = True
+                break
+            if changed:
+                break
+    return any_change
+
+
+def _to_single_exit(w):
+    """a function with early `return`s at `if` level is brought to the form in which the code after a returning `if` is the other
+    arm (the returns then end the arms); left alone when a return sits in a loop / try, or when there is at most one return"""
+    rets = [n for n in _own_walk(w) if isinstance(n, ast.Return)]
+    if len(rets) < 2:
+        return False
+    doc = [s for s in w.body if isinstance(s, ast.Expr) and isinstance(s.value, ast.Constant)]
+    body = [s for s in w.body if s not in doc]
+    nested = [s for s in body if isinstance(s, (ast.FunctionDef, ast.AsyncFunctionDef, ast.ClassDef))]
+    if any(_has_return(s) and isinstance(s, (ast.FunctionDef, ast.AsyncFunctionDef)) for s in nested):
+        return False            # returns of nested functions are not the function's own
+    out = _single_exit(body, lambda v: [ast.Return(value=v)], [])
+    if out is None:
+        return False
+    w.body = doc + out
+    ast.fix_missing_locations(w)
+    return True
+
+
+def _work(fn, chk=None, rel=None, policy="new"):
     """copy of a function with with-blocks spliced, simple nested helper functions written back at their call sites and (when the
-    module is given) imported one-expression functions written out"""
+    module is given) imported one-expression functions written out and the calls of helper functions / methods of the repository
+    replaced by their bodies (`policy`: 'new' = helpers the reference tree does not have; 'h5' = also the functions that open /
+    list / read checkpoint files)"""
+    qual = getattr(fn, "_qual", fn.name)
     w = _clone(fn)
+    w._qual = qual
     _splice_with(w)
     if chk is not None and rel is not None:
         _inline_expression_functions(chk, rel, w)
-    w._inlined = _inline_nested(w)
+    inlined = list(_inline_nested(w))
+
+    def fold(w_):
+        w_.body = _fold_literal_tests(w_.body) or w_.body
+    steps = [_inline_local_expression_functions]
+    if chk is not None and rel is not None:
+        steps.append(lambda w_: _compose_calls(chk, rel, w_, policy))
+    records = _record_types(chk, rel, w) if chk is not None and rel is not None else {}
+    steps += [fold, lambda w_: _scalar_replace(w_, records), _coalesce_copies, _append_loops_to_comprehensions, _direct_io_to_assignments, _to_single_exit, _continue_to_else,
+              _merge_common_tails, fold]
+    for step in steps:
+        # every step rewrites the copy into an equivalent form; a step that meets something it was not written for is skipped
+        backup = _clone(w)
+        try:
+            got = step(w)
+            if isinstance(got, list):
+                inlined += got
+        except AnalysisError:
+            raise
+        except Exception:
+            w = backup
+            w._qual = qual
+    w._inlined = inlined
     ast.fix_missing_locations(w)
     _link(w)
-    w._qual = getattr(fn, "_qual", fn.name)
     return w
 
 
@@ -516,29 +1415,92 @@ def _strip(e):
     return e
 
 
+_IDX = "__i"
+
+
+def _element_binding(target, it):
+    """names of a loop / comprehension target -> the element they stand for at position __i of the iteration, for the iterations
+    zip(A, B, ...), range(n), range(len(A)), enumerate(A); None for anything else"""
+    def at(seq):
+        return ast.Subscript(value=seq, slice=ast.Name(id=_IDX, ctx=ast.Load()), ctx=ast.Load())
+    if not isinstance(it, ast.Call) or it.keywords or any(isinstance(a, ast.Starred) for a in it.args):
+        return None
+    f = _fname(it)
+    if f == "zip" and it.args:
+        elems = [at(a) for a in it.args]
+        if isinstance(target, ast.Name):
+            return {target.id: ast.Tuple(elts=elems, ctx=ast.Load())}
+        if isinstance(target, ast.Tuple) and len(target.elts) == len(elems) and all(isinstance(t, ast.Name) for t in target.elts):
+            return {t.id: e for t, e in zip(target.elts, elems)}
+        return None
+    if f == "range" and len(it.args) == 1 and isinstance(target, ast.Name):
+        return {target.id: ast.Name(id=_IDX, ctx=ast.Load())}
+    if f == "enumerate" and len(it.args) == 1 and isinstance(target, ast.Tuple) and len(target.elts) == 2 \
+            and all(isinstance(t, ast.Name) for t in target.elts):
+        return {target.elts[0].id: ast.Name(id=_IDX, ctx=ast.Load()), target.elts[1].id: at(it.args[0])}
+    return None
+
+
+class _TupleSimplify(ast.NodeTransformer):
+    """(a, b)[k] -> a / b;   f(*(a, b)) -> f(a, b)"""
+    def visit_Subscript(self, node):
+        self.generic_visit(node)
+        k = _const_index(node.slice) if not isinstance(node.slice, ast.Slice) else None
+        if isinstance(node.value, ast.Tuple) and k is not None and -len(node.value.elts) <= k < len(node.value.elts):
+            return node.value.elts[k]
+        return node
+
+    def visit_Call(self, node):
+        self.generic_visit(node)
+        args = []
+        for a in node.args:
+            if isinstance(a, ast.Starred) and isinstance(a.value, ast.Tuple):
+                args.extend(a.value.elts)
+            else:
+                args.append(a)
+        node.args = args
+        return node
+
+
 def _hyperslab(e):
-    """`tuple(slice(s, e) for s, e in zip(A, B))` (list or generator form) or `tuple(map(slice, A, B))` -> (A, B)"""
+    """a selection whose element i is slice(A[i], B[i]) for every i -> (A, B).  Recognised: tuple / list of a comprehension over
+    zip(A, B) / range(n) / enumerate(A) whose element is slice(s, e), slice(*se), slice(se[0], se[1]), slice(A[i], B[i]) ...;
+    map(slice, A, B); starmap(slice, zip(A, B)); map(lambda s, e: slice(s, e), A, B)"""
     if not (isinstance(e, ast.Call) and _fname(e) in ("tuple", "list") and len(e.args) == 1):
         return None
     c = e.args[0]
-    if isinstance(c, ast.Call) and _fname(c) in ("list", "tuple") and len(c.args) == 1:
+    while isinstance(c, ast.Call) and _fname(c) in ("list", "tuple") and len(c.args) == 1:
         c = c.args[0]
-    if isinstance(c, ast.Call) and _fname(c) == "map" and len(c.args) == 3 and isinstance(c.args[0], ast.Name) and c.args[0].id == "slice":
-        return c.args[1], c.args[2]
-    if not isinstance(c, (ast.ListComp, ast.GeneratorExp)) or len(c.generators) != 1 or c.generators[0].ifs:
+    elt = None
+    if isinstance(c, ast.Call) and _fname(c) == "map" and len(c.args) >= 2 and not c.keywords:
+        fn_, seqs = c.args[0], c.args[1:]
+        zipped = ast.Call(func=ast.Name(id="zip", ctx=ast.Load()), args=list(seqs), keywords=[])
+        if isinstance(fn_, ast.Name) and fn_.id == "slice":
+            b = _element_binding(ast.Name(id="__e", ctx=ast.Store()), zipped)
+            elt = ast.Call(func=fn_, args=[ast.Starred(value=b["__e"], ctx=ast.Load())], keywords=[]) if b else None
+        elif isinstance(fn_, ast.Lambda) and not (fn_.args.vararg or fn_.args.kwarg or fn_.args.kwonlyargs or fn_.args.defaults) \
+                and len(fn_.args.args) == len(seqs):
+            b = _element_binding(ast.Tuple(elts=[ast.Name(id=a.arg, ctx=ast.Store()) for a in fn_.args.args], ctx=ast.Store()), zipped)
+            elt = _Sub(b).visit(_clone(fn_.body)) if b else None
+    elif isinstance(c, ast.Call) and _fname(c) == "starmap" and len(c.args) == 2 and isinstance(c.args[0], ast.Name) and c.args[0].id == "slice":
+        b = _element_binding(ast.Name(id="__e", ctx=ast.Store()), c.args[1])
+        elt = ast.Call(func=c.args[0], args=[ast.Starred(value=b["__e"], ctx=ast.Load())], keywords=[]) if b else None
+    elif isinstance(c, (ast.ListComp, ast.GeneratorExp)) and len(c.generators) == 1 and not c.generators[0].ifs:
+        g = c.generators[0]
+        b = _element_binding(g.target, g.iter)
+        elt = _Sub(b).visit(_clone(c.elt)) if b else None
+    if elt is None:
         return None
-    g = c.generators[0]
-    # index form: slice(A[i], B[i]) for i in range(...)
-    if isinstance(g.target, ast.Name) and isinstance(g.iter, ast.Call) and _fname(g.iter) == "range" and len(g.iter.args) == 1 \
-            and isinstance(c.elt, ast.Call) and _fname(c.elt) == "slice" and len(c.elt.args) == 2 \
-            and all(isinstance(x, ast.Subscript) and isinstance(x.slice, ast.Name) and x.slice.id == g.target.id for x in c.elt.args):
-        return c.elt.args[0].value, c.elt.args[1].value
-    if not (isinstance(c.elt, ast.Call) and _fname(c.elt) == "slice" and len(c.elt.args) == 2 and isinstance(g.target, ast.Tuple)
-            and len(g.target.elts) == 2 and isinstance(g.iter, ast.Call) and _fname(g.iter) == "zip" and len(g.iter.args) == 2):
+    elt = _TupleSimplify().visit(elt)
+    if not (isinstance(elt, ast.Call) and _fname(elt) == "slice" and isinstance(elt.func, ast.Name) and len(elt.args) == 2 and not elt.keywords):
         return None
-    if [src(x) for x in g.target.elts] != [src(x) for x in c.elt.args]:
-        return None
-    return g.iter.args[0], g.iter.args[1]
+    out = []
+    for x in elt.args:
+        if not (isinstance(x, ast.Subscript) and isinstance(x.slice, ast.Name) and x.slice.id == _IDX) or any(
+                isinstance(n, ast.Name) and n.id == _IDX for n in ast.walk(x.value)):
+            return None
+        out.append(x.value)
+    return out[0], out[1]
 
 
 def _block_layout(ab):
@@ -582,7 +1544,9 @@ def _reader_facts(fn, D):
         if isinstance(n, ast.expr) and not isinstance(parent(n), ast.expr):
             akeys.extend(_attr_reads(n))
         if isinstance(n, ast.Assign) and len(n.targets) == 1 and isinstance(n.targets[0], ast.Subscript) and \
-                isinstance(n.targets[0].value, ast.Attribute) and n.targets[0].value.attr == "_f" and isinstance(n.value, ast.Subscript):
+                isinstance(n.targets[0].value, ast.Attribute) and n.targets[0].value.attr == "_f" and isinstance(D.resolve(n.value), ast.Subscript):
+            if not isinstance(n.value, ast.Subscript):
+                n.value = D.resolve(n.value)            # the block was given a name first: written out
             base = D.resolve(n.value.value)
             if isinstance(base, ast.Subscript) and _is_file_open(base.value):
                 loads.append(n)
@@ -620,7 +1584,7 @@ def hdf5_agreement(chk):
     w0 = chk.func(U.GRID, "Grid.writeH5Dataset")
     r0 = chk.func(U.GRID, "Grid.loadFromFile")
     s0 = chk.func(U.SETUPS, "setupFromFile")
-    w, r, s = _work(w0, chk, U.GRID), _work(r0, chk, U.GRID), _work(s0, chk, U.SETUPS)
+    w, r, s = _work(w0, chk, U.GRID, "h5"), _work(r0, chk, U.GRID, "h5"), _work(s0, chk, U.SETUPS, "h5")
     acc = _accessors(chk.mod(U.GRID).cls("Grid"))
     _write_back_accessors(w, acc, "Grid", True)
     _write_back_accessors(r, acc, "Grid", True)
@@ -629,12 +1593,19 @@ def hdf5_agreement(chk):
     KW, KR, KS = dict(file=U.GRID, func="Grid.writeH5Dataset"), dict(file=U.GRID, func="Grid.loadFromFile"), dict(file=U.SETUPS, func="setupFromFile")
 
     # ---- what the writer does
-    creates = [n for n in _own_walk(w) if isinstance(n, ast.Call) and _fname(n) == "create_dataset"]
+    creates = [n for n in _own_walk(w) if isinstance(n, ast.Call) and _fname(n) in ("create_dataset", "require_dataset")]
     wname = wshape = None
     if len(creates) == 1:
         wname, wshape = _arg(creates[0], 0, "name"), _arg(creates[0], 1, "shape")
+    def is_written_dataset(e_):
+        """the dataset the writer created: the result of create_dataset, or <file opened here>[<the created name>]"""
+        e_ = Dw.resolve(e_)
+        if isinstance(e_, ast.Call) and _fname(e_) in ("create_dataset", "require_dataset"):
+            return True
+        return isinstance(e_, ast.Subscript) and _is_file_open(e_.value) and _is_const(e_.slice, typ=str) and wname is not None \
+            and _is_const(wname, typ=str) and e_.slice.value.lstrip("/") == wname.value.lstrip("/")
     stores = [n for n in _own_walk(w) if isinstance(n, ast.Assign) and len(n.targets) == 1 and isinstance(n.targets[0], ast.Subscript)
-              and isinstance(D_ := Dw.resolve(n.targets[0].value), ast.Call) and _fname(D_) == "create_dataset"]
+              and is_written_dataset(n.targets[0].value)]
     wattr = []      # (key node, data node)
     for n in _own_walk(w):
         if isinstance(n, ast.Call) and isinstance(n.func, ast.Attribute) and n.func.attr in ("create", "modify") and \
@@ -648,11 +1619,13 @@ def hdf5_agreement(chk):
 
     # ---- dataset name
     ok = bad = None
-    if wname is not None and _is_const(wname, typ=str) and len(rkeys) == 1 and len(skeys) == 1:
-        names = {wname.value.lstrip("/"), rkeys[0].lstrip("/"), skeys[0].lstrip("/")}
+    if wname is not None and _is_const(wname, typ=str) and rkeys and skeys:
+        # every dataset path read on either read path (a path may be read more than once, e.g. attribute first, block later)
+        names = {wname.value.lstrip("/")} | {k.lstrip("/") for k in rkeys + skeys}
         ok = len(names) == 1
         if not ok:
-            bad = (f"the writer creates dataset '{wname.value}', loadFromFile reads '{rkeys[0]}', setupFromFile reads '{skeys[0]}': "
+            show = lambda ks: "/".join(sorted({repr(k) for k in ks}))
+            bad = (f"the writer creates dataset '{wname.value}', loadFromFile reads {show(rkeys)}, setupFromFile reads {show(skeys)}: "
                    "a checkpoint cannot be read back (KeyError)")
     chk.pat("W1-dataset-name", w0, "dataset 'dset'", ok, "writer and both readers use the same dataset path", bad, **KW)
 
@@ -676,6 +1649,8 @@ def hdf5_agreement(chk):
                    "other processes do not fit into the file")
         elif src(shp) == wl + ".fullShape" and val_ok:
             ok = True
+    if ok and len(stores) == 1:
+        ok, bad = _always_done(w, stores[0], "the write of the local block", "writeH5Dataset")
     chk.pat("W1-hyperslab", w0, "dset[starts:ends] <-> _f", ok, "the file holds the global array in the current layout's order; each "
             "process writes exactly its [start,end) block of it", bad, **KW)
 
@@ -687,6 +1662,10 @@ def hdf5_agreement(chk):
             t, want = n.test, "all-equal"
         elif isinstance(n, ast.If) and n.body and isinstance(n.body[0], ast.Raise):
             t, want = n.test, "some-differ"
+        elif isinstance(n, ast.Expr) and isinstance(n.value, ast.Call) and _fname(n.value) in ("assert_array_equal", "assert_equal") \
+                and len(n.value.args) >= 2:
+            # numpy.testing: raises unless all elements are equal
+            t, want = ast.copy_location(ast.Call(func=ast.Name(id="array_equal", ctx=ast.Load()), args=list(n.value.args[:2]), keywords=[]), n), "all-equal"
         if t is not None:
             rt = Dr.resolve(t)
             if _attr_reads(rt):
@@ -764,6 +1743,8 @@ def hdf5_agreement(chk):
                         bad = (f"the stored order is compared with `{src(b)}` but the block is read with the starts/ends of `{rl}`")
                 elif rl_kind == "ok" or src(b.value) == "self._layout":
                     ok = True
+    if ok and len(guards) == 1:
+        ok, bad = _always_done(r, guards[0][2], "the comparison of the stored layout with the grid's", "loadFromFile")
     chk.pat("W1-layout-guard", anchor if anchor is not r0 else r0, "assert (order == self._layout.dims_order).all()", ok,
             "loading into a grid whose layout differs from the stored one is refused", bad, **KR)
     ok = bad = None
@@ -776,6 +1757,8 @@ def hdf5_agreement(chk):
                 bad = f"the block read is [starts, ends) of `{rl}` but it is stored into `self._f`, which has the shape of `self._layout`"
         elif src(tgt.value) == "self._f":
             ok = True
+    if ok and len(rloads) == 1:
+        ok, bad = _always_done(r, rloads[0], "the read of the local block", "loadFromFile")
     chk.pat("W1-hyperslab", r0, "loadFromFile: self._f <- dataset[starts:ends] of the same layout", ok,
             "each process reads the [start,end) block of its current layout, the layout the guard has compared with the file", bad, **KR)
 
@@ -790,11 +1773,36 @@ def hdf5_agreement(chk):
             lay = ast.parse(sl, mode="eval").body
             gobj = src(sloads[0].targets[0].value.value)            # `grid` of grid._f
             ctor = Ds.one(gobj, within=_enclosing_block(sloads[0]))
+            roles = _grid_ctor_roles(chk)
+            if isinstance(ctor, ast.Call) and _fname(ctor) == "Grid" and roles is not None and src(lay) == f"{gobj}.{roles['attr']}":
+                # the block is taken by the grid's own current layout (the read moved into a method of the grid): right after the
+                # constructor that is <layout manager argument>.getLayout(<layout argument>), as Grid.__init__ sets it - unless the
+                # layout is changed between construction and load
+                larg, mgr = _arg(ctor, roles["layout"][0], roles["layout"][1]), _arg(ctor, roles["manager"][0], roles["manager"][1])
+                ctor_st = next((st for v, st in Ds.defs.get(gobj, []) if v is ctor), None)
+                moved = [n for n in _own_walk(s) if isinstance(n, ast.Call) and isinstance(n.func, ast.Attribute) and src(n.func.value) == gobj
+                         and n.func.attr not in acc and ctor_st is not None and _pos(ctor_st) <= _pos(n) <= _pos(sloads[0])
+                         and not any(x is n for x in ast.walk(sloads[0]))]
+                moved += [n for n in _own_walk(s) if isinstance(n, ast.Attribute) and isinstance(n.ctx, ast.Store) and src(n.value) == gobj
+                          and n.attr == roles["attr"]]
+                if larg is not None and mgr is not None and not moved:
+                    lay = ast.parse(f"{src(mgr)}.getLayout({src(larg)})", mode="eval").body
+                else:
+                    # a change of layout between construction and load: the block is then taken by the NEW current layout
+                    sw = [n for n in moved if isinstance(n, ast.Call) and n.func.attr == "setLayout" and len(n.args) == 1]
+                    if sw and len(sw) == len(moved) and larg is not None:
+                        a_ = Ds.resolve(sw[-1].args[0], within=_enclosing_block(sw[-1]))
+                        if src(a_) != src(Ds.resolve(larg, within=_enclosing_block(sloads[0]))) and any(_is_const(x, "layout") for x in ast.walk(a_)) \
+                                and "kwargs" in src(a_):
+                            bad = (f"the grid is switched to the requested layout (`{src(sw[-1])[:60]}`) BEFORE its block is read: the block is "
+                                   f"taken by the starts/ends of that layout from a file written in the order of `{src(larg)}` (or the "
+                                   "layout guard of the reading method refuses the file): a restart into another start layout fails or "
+                                   "reads permuted data")
             if isinstance(lay, ast.Call) and _fname(lay) == "getLayout" and isinstance(lay.func, ast.Attribute) and len(lay.args) == 1 \
-                    and isinstance(ctor, ast.Call) and _fname(ctor) == "Grid":
-                larg = _arg(ctor, 3, "layout")
+                    and isinstance(ctor, ast.Call) and _fname(ctor) == "Grid" and roles is not None:
+                larg = _arg(ctor, roles["layout"][0], roles["layout"][1])
                 larg_r = Ds.resolve(larg, within=_enclosing_block(sloads[0])) if larg is not None else None
-                mgr = _arg(ctor, 2, "layout_manager")
+                mgr = _arg(ctor, roles["manager"][0], roles["manager"][1])
                 requested = lambda e_: _is_const(e_, typ=str) or any(_is_const(x, "layout") for x in ast.walk(e_))
                 if src(lay.func.value) != gobj and (mgr is None or src(lay.func.value) != src(mgr)):
                     pass                    # a layout of some other object: cannot decide
@@ -854,6 +1862,75 @@ def hdf5_agreement(chk):
     if not skip:
         chk.pat("W1-layout-guard", s0, "setupFromFile: change to the requested layout after loading", ok,
                 "the grid is brought to the requested start layout by setLayout, never by reinterpreting the data", bad, **KS)
+
+
+def _always_done(fn, node, what, who):
+    """is the statement `node` of the working copy `fn` executed on every call (on every process)?  -> (True, None) when it depends
+    on no condition, or only on a parameter whose default value lets it run; (None, diagnosis) when a parameter's default switches
+    it off; (None, None) when it depends on any other condition (cannot decide)"""
+    gs = [(t, pol, k) for t, pol, k in guards_of(node, stop=fn)]
+    if not gs:
+        return True, None
+    a = fn.args
+    defaults = dict(zip([x.arg for x in a.args][len(a.args) - len(a.defaults):], a.defaults))
+    defaults.update({x.arg: d for x, d in zip(a.kwonlyargs, a.kw_defaults) if d is not None})
+    stored = {n.id for n in _own_walk(fn) if isinstance(n, ast.Name) and isinstance(n.ctx, ast.Store)}
+    verdict = True
+    for t, pol, k in gs:
+        if k not in ("if", "ifexp"):
+            return None, None
+        ranky = [x for x in ast.walk(t) if (isinstance(x, ast.Name) and "rank" in x.id.lower()) or (isinstance(x, ast.Attribute) and "rank" in x.attr.lower())]
+        if ranky and isinstance(t, ast.Compare):
+            return None, (f"{what} is done only by the processes for which `{src(t)}` is {'true' if pol else 'false'}: the blocks of "
+                          "the other processes are not transferred, the global array in the file / the local data stay incomplete")
+        while isinstance(t, ast.UnaryOp) and isinstance(t.op, ast.Not):
+            t, pol = t.operand, not pol
+        if not (isinstance(t, ast.Name) and t.id in defaults and t.id not in stored and isinstance(defaults[t.id], ast.Constant)
+                and isinstance(defaults[t.id].value, (bool, type(None)))):
+            return None, None
+        if bool(defaults[t.id].value) != pol:
+            return None, (f"{what} only runs when the new argument `{t.id}` is {'true' if pol else 'false'}, and its default is "
+                          f"`{defaults[t.id].value!r}`: every existing call of {who} now skips it")
+    return verdict, None
+
+
+def _grid_ctor_roles(chk):
+    """which constructor arguments of Grid are the layout manager and the name of the start layout, and the attribute that holds
+    the current layout: read off `self.<attr> = <manager parameter>.getLayout(<layout parameter>)` in Grid.__init__
+    -> {'attr': name, 'manager': (position, keyword), 'layout': (position, keyword)} or None"""
+    try:
+        init = chk.mod(U.GRID).func("Grid.__init__")
+    except AnalysisError:
+        return None
+    ps = [a.arg for a in init.args.args]
+    D = _Defs(init)
+    found = []
+    for st in init.body:
+        if isinstance(st, ast.Assign) and len(st.targets) == 1 and isinstance(st.targets[0], ast.Attribute) and ps \
+                and src(st.targets[0].value) == ps[0]:
+            v = D.resolve(st.value)
+            # the manager may have been stored on self first
+            if isinstance(v, ast.Call) and _fname(v) == "getLayout" and isinstance(v.func, ast.Attribute) and len(v.args) == 1 and not v.keywords:
+                found.append((st.targets[0].attr, v.func.value, v.args[0]))
+    if len(found) != 1:
+        return None
+    attr, mgr, name = found[0]
+    stored = {}          # self.<x> = <parameter> at the top level of __init__
+    for st in init.body:
+        if isinstance(st, ast.Assign) and len(st.targets) == 1 and isinstance(st.targets[0], ast.Attribute) and src(st.targets[0].value) == ps[0] \
+                and isinstance(st.value, ast.Name) and st.value.id in ps:
+            stored[src(st.targets[0])] = st.value.id
+    def param(e):
+        e_ = D.resolve(e)
+        nm = e_.id if isinstance(e_, ast.Name) else stored.get(src(e_))
+        return (ps.index(nm) - 1, nm) if nm in ps[1:] else None
+    pm, pl = param(mgr), param(name)
+    if pm is None or pl is None:
+        return None
+    # the attribute is not reassigned later in __init__
+    if sum(1 for n in ast.walk(init) if isinstance(n, ast.Attribute) and n.attr == attr and isinstance(n.ctx, ast.Store)) != 1:
+        return None
+    return {"attr": attr, "manager": pm, "layout": pl}
 
 
 def _enclosing_block(node):
@@ -1081,6 +2158,11 @@ def _template(e):
                     out.append(("lit", "/"))
                 out.extend(t)
             return _merge(out)
+        if f.attr == "rjust" and len(e.args) == 2 and _is_const(e.args[0], typ=int) and _is_const(e.args[1], "0"):
+            inner = e.func.value            # right-justified with zeros: the zero padding of a non-negative number
+            if isinstance(inner, ast.Call) and _fname(inner) == "str" and len(inner.args) == 1:
+                inner = inner.args[0]
+            return [("fld", src(inner), "0" + str(e.args[0].value))]
         if f.attr == "zfill" and len(e.args) == 1 and _is_const(e.args[0], typ=int):
             inner = e.func.value
             if isinstance(inner, ast.Call) and _fname(inner) == "str" and len(inner.args) == 1:
@@ -1159,6 +2241,15 @@ def _selection(value, stmt, D, block):
     """how one file is chosen among the listed names -> (kind, listing expression);
     kind: max | min | date | key | listing-order | None"""
     v = D.resolve(value, within=block)
+    if _path_join(v) is not None:
+        # os.path.join(folder, <one of the names listed in the folder>): the choice is made among the names
+        inner_value = value
+        if isinstance(value, ast.Name):
+            inner_value = D.one(value.id, within=block) or value
+        j0 = _path_join(inner_value)
+        v = _path_join(v)[1]
+        if j0 is not None:
+            value = j0[1]
     pre_sorted = None
     if isinstance(value, ast.Subscript) and isinstance(value.value, ast.Name):
         # names.sort() before names[-1]
@@ -1202,11 +2293,65 @@ def _is_glob(e):
     return isinstance(e, ast.Call) and _fname(e) in ("glob", "iglob") and len(e.args) >= 1
 
 
+_REL = "__name_in_folder__"          # stands for the chosen file's name without the folder (names listed by os.listdir)
+
+
+def _path_join(e):
+    """os.path.join(F, X) -> (F, X)"""
+    if isinstance(e, ast.Call) and isinstance(e.func, ast.Attribute) and e.func.attr == "join" and src(e.func.value).endswith("path") \
+            and len(e.args) == 2 and not e.keywords and not any(isinstance(a, ast.Starred) for a in e.args):
+        return e.args[0], e.args[1]
+    return None
+
+
+def _listing_template(g):
+    """the names a listing expression yields, as the template of the equivalent glob pattern on full paths
+    -> (template or None, folder expression when the names are relative to it (os.listdir) else None).  Recognised: glob(P) / iglob(P);
+    Path(F).glob(P); fnmatch.filter(os.listdir(F), P); [x for x in os.listdir(F) if x.startswith(A) [and x.endswith(B)] / fnmatch(x, P)]"""
+    def listdir(e):
+        while isinstance(e, ast.Call) and isinstance(e.func, ast.Name) and e.func.id in ("sorted", "list", "tuple") and len(e.args) == 1:
+            e = e.args[0]
+        return e.args[0] if isinstance(e, ast.Call) and _fname(e) == "listdir" and len(e.args) == 1 and not e.keywords else None
+
+    def under(folder, pat):
+        f = _template(folder)
+        return _merge(f + [("lit", "/")] + pat) if f is not None and pat is not None else None
+    if _is_glob(g):
+        if isinstance(g.func, ast.Attribute) and isinstance(g.func.value, ast.Call) and _fname(g.func.value) in ("Path", "PurePath") \
+                and len(g.func.value.args) == 1:
+            return under(g.func.value.args[0], _template(g.args[0])), None
+        return _template(g.args[0]), None
+    if isinstance(g, ast.Call) and _fname(g) == "filter" and isinstance(g.func, ast.Attribute) and src(g.func.value) == "fnmatch" \
+            and len(g.args) == 2 and listdir(g.args[0]) is not None:
+        return under(listdir(g.args[0]), _template(g.args[1])), listdir(g.args[0])
+    if isinstance(g, (ast.ListComp, ast.GeneratorExp)) and len(g.generators) == 1 and isinstance(g.generators[0].target, ast.Name) \
+            and isinstance(g.elt, ast.Name) and g.elt.id == g.generators[0].target.id and listdir(g.generators[0].iter) is not None:
+        x = g.elt.id
+        head = tail = whole = None
+        for c in [c for t in g.generators[0].ifs for c in _conjuncts(t)]:
+            if isinstance(c, ast.Call) and isinstance(c.func, ast.Attribute) and src(c.func.value) == x and len(c.args) == 1 and not c.keywords:
+                if c.func.attr == "startswith" and head is None:
+                    head = _template(c.args[0])
+                    continue
+                if c.func.attr == "endswith" and tail is None:
+                    tail = _template(c.args[0])
+                    continue
+            if isinstance(c, ast.Call) and _fname(c) in ("fnmatch", "fnmatchcase") and len(c.args) == 2 and src(c.args[0]) == x and whole is None:
+                whole = _template(c.args[1])
+                continue
+            return None, None
+        if whole is not None and head is None and tail is None:
+            return under(listdir(g.generators[0].iter), whole), listdir(g.generators[0].iter)
+        if head is not None and whole is None:
+            return under(listdir(g.generators[0].iter), _merge(head + [("lit", "*")] + (tail or []))), listdir(g.generators[0].iter)
+    return None, None
+
+
 def _chosen_file(fn, D):
     """the local that names the HDF5 file opened for reading, and its definitions [(value, statement, block)]"""
-    opens = [n for n in _own_walk(fn) if _is_file_open(n) and n.args and isinstance(n.args[0], ast.Name)
-             and (len(n.args) < 2 or _is_const(n.args[1], "r"))]
-    if len(opens) != 1:
+    opens = [n for n in _own_walk(fn) if _is_file_open(n) and n.args and (len(n.args) < 2 or _is_const(n.args[1], "r"))]
+    # the file may be opened more than once (attribute first, block later): every opening must name the same local
+    if not opens or not all(isinstance(n.args[0], ast.Name) for n in opens) or len({n.args[0].id for n in opens}) != 1:
         return None, []
     nm = opens[0].args[0].id
     return nm, [(v, st, _enclosing_block(st)) for v, st in D.defs.get(nm, []) if v is not None]
@@ -1242,7 +2387,7 @@ def file_names(chk):
     w0 = chk.func(U.GRID, "Grid.writeH5Dataset")
     r0 = chk.func(U.GRID, "Grid.loadFromFile")
     s0 = chk.func(U.SETUPS, "setupFromFile")
-    w, r, s = _work(w0, chk, U.GRID), _work(r0, chk, U.GRID), _work(s0, chk, U.SETUPS)
+    w, r, s = _work(w0, chk, U.GRID, "h5"), _work(r0, chk, U.GRID, "h5"), _work(s0, chk, U.SETUPS, "h5")
     Dw, Dr, Ds = _Defs(w), _Defs(r), _Defs(s)
     KW, KR, KS = dict(file=U.GRID, func="Grid.writeH5Dataset"), dict(file=U.GRID, func="Grid.loadFromFile"), dict(file=U.SETUPS, func="setupFromFile")
     pw, pr, ps = _params(w), _params(r), _params(s)
@@ -1283,9 +2428,18 @@ def file_names(chk):
                 pat = None
                 if listing is not None:
                     g = D.resolve(listing, within=blk)
-                    if _is_glob(g):
-                        t = _template(g.args[0])
-                        pat = _canon(t, roles, other="?") if t is not None else None
+                    t, folder = _listing_template(g)
+                    if folder is not None:
+                        # names relative to the listed folder: the chosen one must be joined with that same folder
+                        j = _path_join(D.resolve(v, within=blk))
+                        if j is None or src(j[0]) != src(folder):
+                            t = None
+                    pat = _canon(t, roles, other="?") if t is not None else None
+                try:            # quoted in diagnoses with the locals written out (the statement may be a piece of a helper written back)
+                    st._shown = f"{src(st.targets[0]) if isinstance(st, ast.Assign) and len(st.targets) == 1 and isinstance(st.targets[0], ast.Name) else sfile_name(defs)} = " \
+                                f"{src(D.resolve(v, within=blk))}"
+                except Exception:
+                    pass
                 chosen.append((kind, pat, st, blk))
                 continue
             t = _template(D.resolve(v, within=blk))
@@ -1294,6 +2448,8 @@ def file_names(chk):
             else:
                 other.append(st)
         return explicit, chosen, other
+    def sfile_name(defs):
+        return "file"
     rroles = {pr[1]: "F", pr[3]: "N"} if len(pr) > 3 else {}
     if len(pr) > 2:
         rroles[pr[2]] = "T"
@@ -1333,13 +2489,13 @@ def file_names(chk):
             kind, pat, st, blk = chosen[0]
             pre = _time_field(canon_w)[0]
             if kind == "date":
-                bad = (f"{who} takes the most recently WRITTEN file (`{src(st)[:70]}`), not the file of the largest time: after a run was "
+                bad = (f"{who} takes the most recently WRITTEN file (`{getattr(st, "_shown", src(st))[:70]}`), not the file of the largest time: after a run was "
                        "restarted from an earlier time point (or an old checkpoint was copied/rewritten) the newest file is not the "
                        "latest state, and the time parsed from its name is reported as the resume time")
             elif kind == "min":
-                bad = f"{who} takes the smallest name (`{src(st)[:70]}`): the OLDEST checkpoint is loaded instead of the latest"
+                bad = f"{who} takes the smallest name (`{getattr(st, "_shown", src(st))[:70]}`): the OLDEST checkpoint is loaded instead of the latest"
             elif kind == "listing-order":
-                bad = (f"{who} takes an element of the unsorted directory listing (`{src(st)[:70]}`): glob returns names in arbitrary "
+                bad = (f"{who} takes an element of the unsorted directory listing (`{getattr(st, "_shown", src(st))[:70]}`): glob returns names in arbitrary "
                        "order, so any checkpoint may be loaded")
             elif kind == "key" and getattr(kind, "fn", None) is not None and isinstance(kind.fn, ast.Lambda) and len(kind.fn.args.args) == 1 \
                     and pat is not None and "{?" not in pat and pat.count("*") == 1 and not any(ch in pat for ch in "[]?") \
@@ -1349,7 +2505,7 @@ def file_names(chk):
                 if kok and kind.pick == "max":
                     ok = True
                 elif kok:
-                    bad = f"{who} takes the file of the SMALLEST time (`{src(st)[:70]}`): the oldest checkpoint is loaded instead of the latest"
+                    bad = f"{who} takes the file of the SMALLEST time (`{getattr(st, "_shown", src(st))[:70]}`): the oldest checkpoint is loaded instead of the latest"
                 elif kbad:
                     bad = f"{who} orders the files by a key that is not their time: " + kbad
             elif kind == "max" and pat is not None and padded:
@@ -1379,12 +2535,36 @@ def file_names(chk):
     # ---- the time the restart returns: requested, or parsed from the chosen name
     ok = bad = None
     rets = [n for n in _own_walk(s) if isinstance(n, ast.Return) and isinstance(n.value, ast.Tuple) and len(n.value.elts) == 3]
-    if len(rets) == 1 and isinstance(rets[0].value.elts[2], ast.Name) and len(sch) == 1 and fam is not None and sfile:
-        tv = rets[0].value.elts[2].id
+    if rets and len(sch) == 1 and fam is not None and sfile:
         blk = sch[0][3]
-        parsed = [v for v, st in Ds.defs.get(tv, []) if v is not None and blk is not None and any(st is x for x in blk)]
-        if len(parsed) == 1:
-            ok, bad = _time_parser(Ds.resolve(parsed[0], within=blk, stop=(sfile,)), sfile, fam[0].replace("{N}", default or "{N}"), fam[2])
+        # the returned time: the local in third position of a return (there may be several returns after early exits were
+        # brought to if/else form) that is defined in the block where the latest file is chosen
+        tvs = {r.value.elts[2].id for r in rets if isinstance(r.value.elts[2], ast.Name)}
+        tvs = {tv for tv in tvs if any(v is not None and blk is not None and any(st is x for x in blk) for v, st in Ds.defs.get(tv, []))}
+        if len(tvs) == 1:
+            tv = next(iter(tvs))
+            parsed = [v for v, st in Ds.defs.get(tv, []) if v is not None and blk is not None and any(st is x for x in blk)]
+            if len(parsed) == 1:
+                e = Ds.resolve(parsed[0], within=blk, stop=(sfile,))
+                # another name of the chosen file (the value it was chosen from, written out) is the chosen file
+                chosen = [v for v, st, b_ in sdefs if st is sch[0][2]]
+                if len(chosen) == 1:
+                    cres = Ds.resolve(chosen[0], within=blk)
+                    csrc = src(cres)
+                    rsrc = src(_path_join(cres)[1]) if _path_join(cres) is not None else None
+
+                    class Alias(ast.NodeTransformer):
+                        def visit(self, node):
+                            if isinstance(node, ast.expr) and not isinstance(node, ast.Name) and src(node) == csrc:
+                                return ast.copy_location(ast.Name(id=sfile, ctx=ast.Load()), node)
+                            if isinstance(node, ast.expr) and rsrc is not None and src(node) == rsrc:
+                                return ast.copy_location(ast.Name(id=_REL, ctx=ast.Load()), node)
+                            return self.generic_visit(node)
+                    e = Alias().visit(e)
+                ok, bad = _time_parser(e, sfile, fam[0].replace("{N}", default or "{N}"), fam[2])
+        elif len(rets) == 1 and _is_const(rets[0].value.elts[2], typ=(int, float)) and not isinstance(rets[0].value.elts[2].value, bool):
+            bad = (f"the restart returns the literal time {rets[0].value.elts[2].value!r} whatever checkpoint was loaded: the driver "
+                   "resumes its clock and step index from that value instead of the checkpoint's time")
     chk.pat("W2-latest-selection", s0, "restart: returned time = int(piece of the chosen name between separator and extension)", ok,
             "the time returned for the latest checkpoint is the time field of its name", bad, **KS)
 
@@ -1504,6 +2684,9 @@ def _abs_string(x, fname, name_segs):
         r = _abs_string(e, fname, name_segs)
         return r
     if isinstance(x, ast.Name):
+        if x.id == _REL:                # the name without its folder
+            c = _cut(list(name_segs), "/", "after", True)
+            return ("ok", c[1]) if c is not None and c[0] == "ok" else None
         return ("ok", list(name_segs)) if x.id == fname else None
     if isinstance(x, ast.Call) and _fname(x) == "str" and len(x.args) == 1:
         return sub(x.args[0])
@@ -1658,7 +2841,7 @@ def _attr_source(e, D):
     """what a printer iterates over -> (kind 'dir' | 'dict' | None, [(variable, [conditions])] filters applied on the way)"""
     filters = []
     for _ in range(6):
-        if isinstance(e, ast.Call) and isinstance(e.func, ast.Name) and e.func.id in ("sorted", "list", "tuple") and len(e.args) == 1:
+        if isinstance(e, ast.Call) and isinstance(e.func, ast.Name) and e.func.id in ("sorted", "list", "tuple", "reversed") and len(e.args) == 1:
             e = e.args[0]
         elif isinstance(e, ast.Call) and isinstance(e.func, ast.Attribute) and e.func.attr in ("keys", "items") and not e.args:
             e = e.func.value
@@ -2031,7 +3214,7 @@ def constants_round_trip(chk):
 
     # ---- printer: classified from its syntax tree
     st0 = chk.func(U.CONSTANTS, "Constants.__str__")
-    st_ = _work(st0)
+    st_ = _work(st0, chk, U.CONSTANTS)
     getters = {st.name for st in cls.body if isinstance(st, ast.FunctionDef) and any(src(d) == "property" for d in st.decorator_list)}
     methods = {st.name for st in cls.body if isinstance(st, ast.FunctionDef)} - getters
     # attributes that can be SET independently must be stored (class-level values, properties with a setter); a read-only
@@ -2044,7 +3227,7 @@ def constants_round_trip(chk):
             file=U.CONSTANTS, func="Constants.__str__")
 
     # ---- parser: defaults are applied only after all keys of the file have been read
-    gc = _work(gc0)
+    gc = _work(gc0, chk, U.CONSTANTS)
     D = _Defs(gc)
     KG = dict(file=U.CONSTANTS, func="get_constants")
     cobj = None
@@ -2085,6 +3268,14 @@ def constants_round_trip(chk):
     chk.pat("G3-defaults-after-file", gc0, "set_defaults() after the parse loop", ok,
             "expressions in the file are evaluated against values given in the file (a key that is not yet read defers the "
             "expression); defaults only fill what the file leaves unset", bad, **KG)
+
+    # ---- what runs after the file has been read only completes the object: it must not replace a value the file gave
+    ok = bad = None
+    if cobj is not None and len(loops) == 1:
+        ok, bad = _completions_fill_only_unset(gc, loops[0], cobj, cls, keys)
+    chk.pat("G3-defaults-after-file", gc0, "after the parse loop: attributes are written only where they are still None", ok,
+            "every attribute written after the file has been read (defaults, derived constants) is written under the test that it is "
+            "still unset, in the method or at its call: a value given in the file survives", bad, **KG)
 
     # ---- deferral of expressions with unset operands
     ok = bad = None
@@ -2168,7 +3359,7 @@ def constants_round_trip(chk):
             "an expression whose operands are not yet known is deferred and retried, with a progress assertion", bad, **KG)
 
     ee0 = chk.func(U.CONSTANTS, "eval_expr")
-    ee = _work(ee0)
+    ee = _work(ee0, chk, U.CONSTANTS)
     pe = _params(ee)
     ok = bad = None
     gets = [n for n in _own_walk(ee) if isinstance(n, ast.Assign) and isinstance(n.value, ast.Call) and _fname(n.value) == "getattr"
@@ -2222,6 +3413,17 @@ def constants_round_trip(chk):
                         s_ for s_ in (_enclosing_block(i) or []) if _pos(s_) > _pos(i)]
                     if cleared and turned and leaves:
                         ok = True
+                # the unset state handed on in another local: `x = None` in the None arm, a value that cannot be None otherwise,
+                # and `if x is None: return None` afterwards
+                carriers = {t_.id for s_ in arm if isinstance(s_, ast.Assign) and _is_const_none(s_.value) for t_ in s_.targets if isinstance(t_, ast.Name)}
+                for cv in carriers:
+                    others = [d for d in _Defs(ee).defs.get(cv, []) if not any(d[1] is s_ for s_ in arm)]
+                    never_none = others and all(isinstance(d[0], ast.Call) and _fname(d[0]) in ("str", "repr", "format", "float", "int") for d in others)
+                    turned = [j for j in _own_walk(ee) if isinstance(j, ast.If) and _pos(j) >= _pos(i) and j is not i and (same_expr(j.test, f"{cv} is None") or same_expr(
+                        j.test, f"{cv} == None")) and any(is_none_ret(n) for s_ in j.body for n in ast.walk(s_))
+                        and [(src(t_), p_) for t_, p_, k_ in guards_of(j)] == [(src(t_), p_) for t_, p_, k_ in guards_of(i)]]
+                    if never_none and turned:
+                        ok = True
                 if ok is None and not arm and not any_none_ret:
                     bad = (f"nothing is done when the operand is unset (`{src(i.test)}` has no other arm) and eval_expr never returns None: "
                            "the expression cannot be deferred, the unset name stays in the text that is evaluated")
@@ -2231,21 +3433,44 @@ def constants_round_trip(chk):
 
     # ---- the parameter file: written by setupSave, read by the restart, looked for by the driver
     ss0 = chk.func(U.SAVING, "setupSave")
-    ss = _work(ss0)
+    ss = _work(ss0, chk, U.SAVING)
     Dss = _Defs(ss)
     pss = _params(ss)
     wrote = None
     if len(pss) > 1:
         opens = _literal_names(ss, Dss, {pss[1]: "F"}, lambda n: isinstance(n.func, ast.Name) and n.func.id == "open" and len(n.args) > 1
                                and _is_const(n.args[1], typ=str) and "w" in n.args[1].value)
-        prints = [n for n in _own_walk(ss) if isinstance(n, ast.Call) and isinstance(n.func, ast.Name) and n.func.id == "print" and n.args
-                  and src(n.args[0]) == pss[0]]
+        def text_of_constants(e_):
+            """the expression is the text of the constants object: the object itself (print / format apply str), str(obj),
+            obj.__str__(), a format / f-string / concatenation with a newline around one of these"""
+            e_ = Dss.resolve(e_)
+            if isinstance(e_, ast.BinOp) and isinstance(e_.op, ast.Add):
+                sides = [x for x in (e_.left, e_.right) if not (_is_const(x, typ=str) and x.value.strip() == "")]
+                return len(sides) == 1 and text_of_constants(sides[0])
+            if isinstance(e_, ast.Call) and _fname(e_) in ("str", "__str__", "format", "repr") and src(e_) in (
+                    f"str({pss[0]})", f"{pss[0]}.__str__()", f"format({pss[0]})"):
+                return True
+            t_ = _template(e_)
+            return t_ is not None and [p_ for p_ in t_ if p_[0] == "fld"] == [("fld", pss[0], "")] and all(
+                p_[0] == "fld" or p_[1].strip() == "" for p_ in t_)
+        # the statement that sends the text of the constants to a file handle: print(obj, file=H) / H.write(text) / H.writelines([text])
+        prints = []
+        for n in _own_walk(ss):
+            if not isinstance(n, ast.Call):
+                continue
+            if isinstance(n.func, ast.Name) and n.func.id == "print" and len(n.args) == 1 and text_of_constants(n.args[0]):
+                h_ = next((k.value for k in n.keywords if k.arg == "file"), None)
+                if h_ is not None:
+                    prints.append((n, h_))
+            elif isinstance(n.func, ast.Attribute) and n.func.attr == "write" and len(n.args) == 1 and text_of_constants(n.args[0]):
+                prints.append((n, n.func.value))
         if len(opens) == 1 and len(prints) == 1:
-            f = next((k.value for k in prints[0].keywords if k.arg == "file"), None)
+            f = prints[0][1]
+            prints = [prints[0][0]]
             if f is not None and Dss.resolve(f, within=_enclosing_block(prints[0])) is not None and \
                     src(Dss.resolve(f, within=_enclosing_block(prints[0]))) == src(Dss.resolve(opens[0][1], within=_enclosing_block(opens[0][1]))):
                 wrote = opens[0][0]
-    sf = _work(chk.func(U.SETUPS, "setupFromFile"), chk, U.SETUPS)
+    sf = _work(chk.func(U.SETUPS, "setupFromFile"), chk, U.SETUPS, "h5")
     Dsf = _Defs(sf)
     psf = _params(sf)
     read = None
@@ -2265,7 +3490,7 @@ def constants_round_trip(chk):
             "the root process prints the constants into the file whose name the restart passes to get_constants", bad,
             file=U.SAVING, func="setupSave")
     # the driver restarts only when it finds that file
-    mn = _work(chk.func(U.DRIVER, "main"))
+    mn = _work(chk.func(U.DRIVER, "main"), chk, U.DRIVER)
     Dm = _Defs(mn)
     looked = [c for c, n in _literal_names(mn, Dm, {}, lambda n: _fname(n) == "exists", other="F") if c is not None and c.count("{F}") == 1]
     ok = bad = None
@@ -2280,6 +3505,128 @@ def constants_round_trip(chk):
 
 def _is_const_none(e):
     return isinstance(e, ast.Constant) and e.value is None
+
+
+def _unset_test(t, pol):
+    """the test (taken with polarity `pol`) says that an attribute is still unset -> source of what is tested
+    (`self.X` / `getattr(self, K)` / ...), else None"""
+    while isinstance(t, ast.UnaryOp) and isinstance(t.op, ast.Not):
+        t, pol = t.operand, not pol
+    if isinstance(t, ast.Compare) and len(t.ops) == 1 and _is_const_none(t.comparators[0]):
+        if isinstance(t.ops[0], (ast.Is, ast.Eq)) and pol:
+            return t.left
+        if isinstance(t.ops[0], (ast.IsNot, ast.NotEq)) and not pol:
+            return t.left
+    return None
+
+
+def _attr_key(e, obj):
+    """`obj.X` -> 'X';  getattr(obj, 'X'[, None]) -> 'X';  getattr(obj, K[, None]) -> ('var', 'K');  else None"""
+    if isinstance(e, ast.Attribute) and src(e.value) == obj:
+        return e.attr
+    if isinstance(e, ast.Call) and _fname(e) == "getattr" and isinstance(e.func, ast.Name) and len(e.args) in (2, 3) and src(e.args[0]) == obj \
+            and (len(e.args) == 2 or _is_const_none(e.args[2])):
+        if _is_const(e.args[1], typ=str):
+            return e.args[1].value
+        if isinstance(e.args[1], ast.Name):
+            return ("var", e.args[1].id)
+    return None
+
+
+def _writes_with_guards(fn, obj, stop=None):
+    """attribute writes on `obj` inside `fn` -> [(key, statement, guarded?, mentioned?)]: key as in _attr_key; guarded = under a test
+    that the same attribute is still None (an enclosing `if`, or an earlier `if <set>: continue` of the same loop body);
+    mentioned = some test around the write reads the attribute at all (an unrecognised guard)"""
+    out = []
+    for n in ast.walk(fn):
+        key = st = None
+        if isinstance(n, ast.Attribute) and isinstance(n.ctx, ast.Store) and src(n.value) == obj:
+            key = n.attr
+        elif isinstance(n, ast.Call) and _fname(n) == "setattr" and isinstance(n.func, ast.Name) and len(n.args) == 3 and src(n.args[0]) == obj:
+            key = n.args[1].value if _is_const(n.args[1], typ=str) else ("var", n.args[1].id) if isinstance(n.args[1], ast.Name) else ("var", "?")
+        if key is None:
+            continue
+        st = n
+        while not isinstance(st, ast.stmt):
+            st = parent(st)
+        tests = [(t, pol) for t, pol, k in guards_of(n, stop=stop) if k in ("if", "ifexp", "while")]
+        # early `continue` / `return` of the enclosing block(s): `if <test>: continue` before the statement guards it with `not test`
+        ch, p_ = st, parent(st)
+        while p_ is not None and p_ is not stop:
+            for f in ("body", "orelse"):
+                b = getattr(p_, f, None)
+                if isinstance(b, list) and any(x is ch for x in b):
+                    for prev in b[:next(i for i, x in enumerate(b) if x is ch)]:
+                        if isinstance(prev, ast.If) and not prev.orelse and prev.body and isinstance(prev.body[-1], (ast.Continue, ast.Return, ast.Raise)):
+                            tests.append((prev.test, False))
+            if isinstance(p_, (ast.FunctionDef, ast.AsyncFunctionDef)):
+                break
+            ch, p_ = p_, parent(p_)
+        guarded = any(_unset_test(t, pol) is not None and _attr_key(_unset_test(t, pol), obj) == key for t, pol in tests)
+        name = key if isinstance(key, str) else key[1]
+        mentioned = any((isinstance(x, ast.Attribute) and x.attr == name and src(x.value) == obj) or (isinstance(x, ast.Name) and x.id == name
+                                                                                                   and not isinstance(key, str))
+                        or (isinstance(x, ast.Constant) and x.value == name) for t, pol in tests for x in ast.walk(t))
+        out.append((key, st, guarded, mentioned))
+    return out
+
+
+def _completions_fill_only_unset(gc, lp, cobj, cls, keys):
+    """the statements of get_constants after the parse loop that write attributes of the constants object (directly, or through
+    a method of the class) -> (ok, bad)"""
+    after = [n for n in _own_walk(gc) if isinstance(n, ast.stmt) and _pos(n) > _pos(lp) and not any(n is x for x in ast.walk(lp))]
+    methods = {m.name: m for m in cls.body if isinstance(m, ast.FunctionDef) and not m.decorator_list}
+    found, unknown, wrong = 0, [], []
+    seen = set()
+    for st in after:
+        if isinstance(st, (ast.If, ast.For, ast.While, ast.With, ast.Try)):
+            continue                    # their parts are visited on their own
+        for n in ast.walk(st):
+            if not (isinstance(n, ast.Call) and isinstance(n.func, ast.Attribute) and src(n.func.value) == cobj and id(n) not in seen):
+                continue
+            seen.add(id(n))
+            m = methods.get(n.func.attr)
+            if m is None or not m.args.args:
+                unknown.append(src(n)[:50])
+                continue
+            slf = m.args.args[0].arg
+            ws = _writes_with_guards(m, slf, stop=m)
+            if any(isinstance(c, ast.Call) and isinstance(c.func, ast.Attribute) and src(c.func.value) == slf and c.func.attr in methods
+                   for c in ast.walk(m)):
+                unknown.append(f"{m.name} calls other methods")
+            site = [(t, pol) for t, pol, k in guards_of(n, stop=gc) if k in ("if", "ifexp")]
+            for key, wst, guarded, mentioned in ws:
+                found += 1
+                at_site = any(_unset_test(t, pol) is not None and _attr_key(_unset_test(t, pol), cobj) == key for t, pol in site)
+                site_mentions = isinstance(key, str) and any(isinstance(x, ast.Attribute) and x.attr == key and src(x.value) == cobj
+                                                             for t, pol in site for x in ast.walk(t))
+                if guarded or at_site:
+                    continue
+                if isinstance(key, str) and (key.startswith("_") and key[1:] not in keys or (not key.startswith("_") and key not in keys)):
+                    continue            # not a key of the parameter file
+                if mentioned or site_mentions:
+                    unknown.append(f"{m.name}: `{src(wst)[:50]}`")
+                else:
+                    what = f"`{key}`" if isinstance(key, str) else f"every key `{key[1]}` of its loop"
+                    wrong.append(f"`{src(n)[:40]}` runs after the file has been read and `{m.name}` writes {what} (`{src(wst)[:60]}`) "
+                                 f"without testing that it is still unset, neither in the method nor at the call: a value given in the "
+                                 "parameter file is replaced, the constants read back are not the ones that were saved")
+        for key, wst, guarded, mentioned in _writes_with_guards(st, cobj, stop=gc) if not isinstance(st, (ast.FunctionDef, ast.ClassDef)) else []:
+            if wst is not st:
+                continue
+            found += 1
+            if guarded:
+                continue
+            if mentioned or not isinstance(key, str):
+                unknown.append(f"`{src(wst)[:50]}`")
+            elif key in keys:
+                wrong.append(f"`{src(wst)[:60]}` after the parse loop overwrites `{key}` without testing that it is still unset: a value "
+                             "given in the parameter file is replaced")
+    if wrong:
+        return None, wrong[0]
+    if unknown or not found:
+        return None, None
+    return True, None
 
 
 # =========================================================================================================
@@ -2528,25 +3875,54 @@ def restart_bookkeeping(chk, fn):
             """conditions under which the single increment of `nm` runs inside the loop body"""
             xs = [parent(x) for x in stores(nm) if isinstance(parent(x), ast.stmt) and (increment_of(parent(x)) or (None,))[0] == nm]
             return tuple((src(t_), p_) for t_, p_, k_ in guards_of(xs[0], stop=lp)) if len(xs) == 1 else None
-        for nm, what in ((T, "time"), (TI, "step index")):
-            top = incs.get(nm, [])
-            sts = [parent(x) for x in stores(nm)]
-            all_incs = [x for x in sts if isinstance(x, ast.stmt) and (increment_of(x) or (None,))[0] == nm]
-            if len(sts) == 1 and len(top) == 1:
-                continue
-            if len(all_incs) >= 2:
-                bad = bad or (f"the {what} `{nm}` is incremented {len(all_incs)} times in the loop (lines "
-                              f"{', '.join(str(getattr(x, 'lineno', '?')) for x in all_incs)}): time and index no longer advance together "
-                              "once per step")
-            elif len(sts) == 1 and len(all_incs) == 1 and any(k_ == "if" for t_, p_, k_ in guards_of(all_incs[0], stop=lp)) \
-                    and guard_sig(T) != guard_sig(TI):
-                g_ = next(t_ for t_, p_, k_ in guards_of(all_incs[0], stop=lp) if k_ == "if")
-                bad = bad or (f"the {what} `{nm}` advances only under the condition `{src(g_)[:60]}`: time and index no longer advance "
-                              "together once per step")
-            else:
-                unclear = True          # recomputed instead of incremented, or assigned in a way this rule does not follow
+        # how often the time and the index advance on each path through one iteration (early `continue`s and if-arms followed;
+        # paths that leave the loop are not iterations of interest)
+        def advance(st):
+            inc = increment_of(st) if isinstance(st, (ast.Assign, ast.AugAssign)) else None
+            return inc[0] if inc and inc[0] in (T, TI) else None
+
+        def touches(node):
+            return any(isinstance(x, ast.Name) and x.id in (T, TI) and isinstance(x.ctx, ast.Store) for x in ast.walk(node))
+
+        def paths(stmts, states):
+            """states: set of (advances of T, advances of TI) reaching the block -> (states falling through, states ending the
+            iteration early); None when something cannot be followed"""
+            done = set()
+            for st in stmts:
+                if not states:
+                    break
+                if isinstance(st, ast.Continue):
+                    done |= states
+                    states = set()
+                elif isinstance(st, (ast.Break, ast.Return, ast.Raise)):
+                    states = set()
+                elif isinstance(st, ast.If):
+                    a, b = paths(st.body, set(states)), paths(st.orelse, set(states))
+                    if a is None or b is None:
+                        return None
+                    states = a[0] | b[0]
+                    done |= a[1] | b[1]
+                elif advance(st) is not None:
+                    states = {(c1 + (advance(st) == T), c2 + (advance(st) == TI)) for c1, c2 in states}
+                elif touches(st) or (isinstance(st, (ast.For, ast.While, ast.Try, ast.With)) and any(
+                        isinstance(x, (ast.Continue, ast.Break, ast.Return)) for x in ast.walk(st)) and isinstance(st, (ast.Try, ast.With))):
+                    return None         # assigned in another way, or a jump out of a block this rule does not follow
+            return states, done
+        got = paths(lp.body, {(0, 0)})
+        if got is None or T == TI:
+            unclear = True
+        else:
+            ends = got[0] | got[1]
+            apart = sorted(e for e in ends if e[0] != e[1])
+            if apart:
+                bad = (f"on some path through one iteration the time `{T}` advances {apart[0][0]} time(s) and the step index `{TI}` "
+                       f"{apart[0][1]} time(s): time and index no longer advance together once per step")
+            elif ends != {(1, 1)}:
+                unclear = True          # iterations without a step, or with several: consistent, but not the form this rule decides
         if not bad and not unclear:
-            one = incs[TI][0][1]
+            all_steps = [increment_of(x)[1] for x in ast.walk(lp) if isinstance(x, (ast.Assign, ast.AugAssign)) and increment_of(x)
+                         and increment_of(x)[0] == TI]
+            one = all_steps[0] if all_steps and all(src(x) == src(all_steps[0]) for x in all_steps) else ast.Name(id="<several>", ctx=ast.Load())
             tn, exact = _end_index(D, TN, strict)
             if not _is_const(one, 1):
                 bad = f"the step index advances by `{src(one)}` per step, not by 1"
@@ -2579,7 +3955,15 @@ def restart_bookkeeping(chk, fn):
             while not isinstance(st, ast.stmt):
                 st = parent(st)
             where = "loop" if lp is not None and any(x is c for x in ast.walk(lp)) else "before" if lp is not None and _pos(c) < _pos(lp) else "after"
-            conds = tuple((src(D.resolve(t_, only=_arith)), p_) for t_, p_, k_ in guards_of(st) if k_ in ("if", "ifexp"))
+            def cond_key(t_, p_):
+                """a condition on the step index in a form that does not depend on how the residue is written:
+                `ti % M == M - 1` and `(ti + 1) % M == 0` are the same condition"""
+                r_ = D.resolve(t_, only=_arith)
+                mc = _mod_condition(r_ if p_ else ast.UnaryOp(op=ast.Not(), operand=r_))
+                if mc is not None and mc[3][1] is None:
+                    return (f"{mc[0]} ≡ {mc[3][0] - mc[1]} (mod {mc[2]}) [{mc[4]}]", True)
+                return (src(r_), p_)
+            conds = tuple(cond_key(t_, p_) for t_, p_, k_ in guards_of(st) if k_ in ("if", "ifexp"))
             sites.setdefault((where, conds), []).append(c)
         good = 0
         unknown_label = False
@@ -2588,7 +3972,7 @@ def restart_bookkeeping(chk, fn):
             if len(holders) > 1:
                 lo, hi = min(_pos(c) for c in blk), max(_pos(c) for c in blk)
                 between = {n.id for n in _own_walk(fn) if isinstance(n, ast.Name) and isinstance(n.ctx, ast.Store) and lo < _pos(n) < hi}
-                watched = {T} | {x.id for t_ in conds for x in ast.walk(ast.parse(t_[0], mode="eval")) if isinstance(x, ast.Name)}
+                watched = {T} | {x for t_ in conds for x in re.findall(r"[A-Za-z_][A-Za-z_0-9]*", t_[0])}
                 if between & watched:
                     continue            # the state changes between the pieces of this site: cannot decide
             rows = []
@@ -2601,6 +3985,13 @@ def restart_bookkeeping(chk, fn):
             if None in names:
                 continue
             if sorted(names) == ["grid"] or sorted(names) == ["phi"]:
+                other_ = "phi" if names[0] == "grid" else "grid"
+                elsewhere = any(w2 == where and k2 != (where, conds) and any(
+                    (lambda cv: (cv is None and other_ == "grid") or (cv is not None and _is_const(cv, other_)))(_arg(c2, 2, "nameConvention")) for c2 in b2)
+                    for k2, b2 in sites.items() for w2 in [k2[0]])
+                if elsewhere:
+                    unknown_label = True            # the other grid is written at the same place of the run under a condition this
+                    continue                        # rule cannot show to be the same one: cannot decide
                 bad = bad or (f"the save site at line {line} writes only '{names[0]}': distribution function and potential are no longer "
                               "checkpointed together")
             elif len(set(names)) < len(names):
@@ -2740,8 +4131,17 @@ def _save_steps(fn, D, lp, TI, incs, writes):
         return None, None
     k_save = min(top_index(c) for c in in_loop)
     lt, ft = site_test(in_loop[0], lp), site_test(after[0], fn)
-    if lt is None or ft is None or any(site_test(c, lp) is None or src(site_test(c, lp)) != src(lt) for c in in_loop) \
-            or any(site_test(c, fn) is None or src(site_test(c, fn)) != src(ft) for c in after):
+    def same_test(t1, t2):
+        """the same condition, also when the residue is written differently (`ti % M == M - 1` / `(ti + 1) % M == 0`)"""
+        if t1 is None or t2 is None:
+            return False
+        if src(t1) == src(t2):
+            return True
+        m1, m2 = _mod_condition(t1), _mod_condition(t2)
+        return m1 is not None and m2 is not None and m1[3][1] is None and m2[3][1] is None \
+            and (m1[0], m1[2], m1[3][0] - m1[1], m1[4]) == (m2[0], m2[2], m2[3][0] - m2[1], m2[4])
+    if lt is None or ft is None or any(not same_test(site_test(c, lp), lt) for c in in_loop) \
+            or any(not same_test(site_test(c, fn), ft) for c in after):
         return None, None
     lc, fc = _mod_condition(lt), _mod_condition(ft)
     if lc is None or fc is None:
@@ -2825,7 +4225,7 @@ def run(chk):
     hdf5_agreement(chk)
     file_names(chk)
     constants_round_trip(chk)
-    main = _work(chk.func(U.DRIVER, "main"))
+    main = _work(chk.func(U.DRIVER, "main"), chk, U.DRIVER)
     zero_divisors(chk, main)
     restart_bookkeeping(chk, main)
     chk.floor("W1-", 5)
